@@ -108,7 +108,7 @@ Proof.
 Qed.
 
 Lemma vrel_null : forall F, vrel F VNull VNull.
-Proof. intros. cbn. auto. Qed.
+Proof. intros. cbn [vrel scalar]. auto. Qed.
 
 Lemma vrel_scalar : forall F vs vy, vrel F vs vy -> scalar vs = true -> vy = vs.
 Proof. intros F vs vy H Hs. destruct vs; try discriminate Hs; cbn [vrel] in H; exact (proj1 H). Qed.
@@ -139,8 +139,8 @@ Lemma tag_of_vrel : forall F vs vy, vrel F vs vy ->
 Proof.
   intros F vs vy H. destruct (vrel_cases F vs vy H) as [[Hs ->]|[id [n [ip [k [-> ->]]]]]].
   - exists (val_tag vs). rewrite (tag_scalar vs Hs). split; [reflexivity|]. split; [reflexivity|].
-    destruct vs; try discriminate Hs; cbn; split; intros N; discriminate N.
-  - exists TFunction. rewrite !tag_fun. split; [reflexivity|]. split; [reflexivity|]. cbn. tauto.
+    destruct vs; try discriminate Hs; cbn [val_tag is_fun]; split; intros N; discriminate N.
+  - exists TFunction. rewrite !tag_fun. split; [reflexivity|]. split; [reflexivity|]. cbn [is_fun]. tauto.
 Qed.
 
 (* a binary operator on related operands, unless it is == / != on two functions *)
@@ -221,7 +221,7 @@ Lemma fused_agree : forall orc F l r o name v o' h a a' m m',
   end.
 Proof.
   intros orc F l r o name v o' h a a' m m' Hf Hlit Hm Hft mf Hmf Ha.
-  assert (vrel F (VInt v) (VInt v)) as Hv by (cbn; split; [reflexivity|apply scalar_lit; exact Hlit]).
+  assert (vrel F (VInt v) (VInt v)) as Hv by (cbn [vrel]; split; [reflexivity|apply scalar_lit; exact Hlit]).
   assert (wf_val (VInt v) = true) as Wv by (apply scalar_wf; apply scalar_lit; exact Hlit).
   destruct (PoolProofs.fused_selection_sound _ _ _ _ _ _ Hf) as [(-> & -> & ->)|(-> & -> & Hmir)].
   - (* x op c *)
@@ -253,10 +253,1405 @@ Proof.
       rewrite (ops_exact orc o c1 m h (VInt v) a (XInt v) xa Hc1 Hd1 Wv (scalar_wf a Sa) eq_refl Hxa).
       rewrite (mirror_sound (float_rem orc) o o' v xa Hmir). reflexivity.
     + (* a function: TypeError on both sides *)
-      rewrite (binop_fun_err orc o' mf h (VFun ip k) (VInt v) TFunction TInt Hm' (tag_fun ip k)
-                 (tag_scalar _ (scalar_lit v Hlit)) (or_introl eq_refl) (or_introl ltac:(discriminate))).
+      pose proof (tag_scalar (VInt v) (scalar_lit v Hlit)) as Tv. cbn [val_tag] in Tv.
+      assert (TFunction <> TInt) as N1 by discriminate. assert (TInt <> TFunction) as N2 by discriminate.
+      pose proof (binop_fun_err orc o' mf h (VFun ip k) (VInt v) TFunction TInt Hm' (tag_fun ip k) Tv
+                    (or_introl eq_refl) (or_introl N1)) as E2.
       change (Sem.method_of o) with (OpsProofs.method_of o) in Hm.
-      rewrite (binop_fun_err orc o m h (VInt v) (VFun id n) TInt TFunction Hm
-                 (tag_scalar _ (scalar_lit v Hlit)) (tag_fun id n) (or_intror eq_refl) (or_introl ltac:(discriminate))).
-      reflexivity.
+      pose proof (binop_fun_err orc o m h (VInt v) (VFun id n) TInt TFunction Hm Tv (tag_fun id n)
+                    (or_intror eq_refl) (or_introl N2)) as E3.
+      rewrite E2, E3. reflexivity.
 Qed.
+
+(** * Occurrences of function literals in a piece of program, with the compiler state at each *)
+
+Definition infix_st0 (l : expr) (op : operator) (r : expr) (st : cstate) : cstate :=
+  match fused_candidate l r op with
+  | Some (name, v, op') => fst (compile_const_var_infix name v op' st)
+  | None => st
+  end.
+
+Definition lit_entry (name : text) (ps : list text) (body : list stmt) (st : cstate) (st4 : cstate) : fentry :=
+  mkFE (code_len (fun_st3 ps (fst (fun_st1 name st)))) (Z.of_nat (snd (leave_context (c_symbols st4)))) ps body
+       (fun_st3 ps (fst (fun_st1 name st))).
+
+Inductive occ_e : expr -> cstate -> fentry -> Prop :=
+| oc_here : forall name ps body st st4,
+    c_block_statement body (fun_st3 ps (fst (fun_st1 name st))) = Ok st4 ->
+    occ_e (EFunction name ps body) st (lit_entry name ps body st st4)
+| oc_body : forall name ps body st fe,
+    occ_blk body (fun_st3 ps (fst (fun_st1 name st))) fe -> occ_e (EFunction name ps body) st fe
+| oc_prefix : forall op r st fe, occ_e r st fe -> occ_e (EPrefix op r) st fe
+| oc_assign : forall x r st fe, occ_e r st fe -> occ_e (EAssign (EIdent x) r) st fe
+| oc_infix_l : forall l op r st fe, occ_e l (infix_st0 l op r st) fe -> occ_e (EInfix l op r) st fe
+| oc_infix_r : forall l op r st st1 fe, compile_expression l (infix_st0 l op r st) = Ok st1 ->
+    occ_e r st1 fe -> occ_e (EInfix l op r) st fe
+| oc_if_c : forall c t alt st fe, occ_e c st fe -> occ_e (EIf c t alt) st fe
+| oc_if_t : forall c t alt st st1 fe, compile_expression c st = Ok st1 ->
+    occ_blk t (if_st2 st1) fe -> occ_e (EIf c t alt) st fe
+| oc_if_a : forall c t bl st st1 st5 fe, compile_expression c st = Ok st1 -> if_st5 st1 t = Ok st5 ->
+    occ_blk bl st5 fe -> occ_e (EIf c t (Some bl)) st fe
+| oc_while_c : forall c b st fe, occ_e c (wh_st2 st) fe -> occ_e (EWhile c b) st fe
+| oc_while_b : forall c b st st3 fe, compile_expression c (wh_st2 st) = Ok st3 ->
+    occ_blk b (wh_st4 st3) fe -> occ_e (EWhile c b) st fe
+| oc_call_a : forall f args st fe, occ_es args st fe -> occ_e (ECall f args) st fe
+| oc_call_f : forall f args st st1 fe, CompilerNames.compile_exprs args st = Ok st1 ->
+    occ_e f st1 fe -> occ_e (ECall f args) st fe
+with occ_es : list expr -> cstate -> fentry -> Prop :=
+| oc_es_hd : forall x r st fe, occ_e x st fe -> occ_es (x :: r) st fe
+| oc_es_tl : forall x r st st1 fe, compile_expression x st = Ok st1 -> occ_es r st1 fe -> occ_es (x :: r) st fe
+with occ_blk : list stmt -> cstate -> fentry -> Prop :=
+| oc_blk : forall s b st fe, occ_l (s :: b) (set_symbols st (enter_scope (c_symbols st))) fe -> occ_blk (s :: b) st fe
+with occ_l : list stmt -> cstate -> fentry -> Prop :=
+| oc_l_hd : forall s r st fe, occ_s s st fe -> occ_l (s :: r) st fe
+| oc_l_tl : forall s r st st1 fe, compile_statement s st = Ok st1 -> occ_l r st1 fe -> occ_l (s :: r) st fe
+with occ_s : stmt -> cstate -> fentry -> Prop :=
+| oc_s_let : forall x e st fe, occ_e e (set_symbols st (fst (define (c_symbols st) x))) fe -> occ_s (SLet x e) st fe
+| oc_s_expr : forall e st fe, occ_e e st fe -> occ_s (SExpr e) st fe
+| oc_s_block : forall b st fe, occ_blk b st fe -> occ_s (SBlock b) st fe
+| oc_s_ret : forall e st fe, occ_e e st fe -> occ_s (SReturn e) st fe.
+
+(** * Environments *)
+
+Inductive cmode : Set := MTop | MFun.
+
+Record cenv : Type := mkCE {
+  ce_mode : cmode;
+  ce_ds : decls;        (* the global slots, in slot order: (name, cell of Sem) *)
+  ce_dl : decls;        (* the slots of the activation (MFun) *)
+  ce_nf : nat;          (* MFun: the first ce_nf global slots are visible to the running function *)
+  ce_L : nat;           (* every closure sees at most the first ce_L global slots *)
+  ce_gh : list nat;     (* holes among the global slots *)
+  ce_lh : list nat;     (* holes among the slots of the activation *)
+  ce_N : nat            (* the number of slots of the activation *)
+}.
+
+(* the compiler's symbol table and Sem's run-time context describe the same declarations *)
+Definition ctx_ok (st : cstate) (c : dctx) (E : cenv) : Prop :=
+  match ce_mode E with
+  | MTop =>
+      d_global c = None /\ concat (d_local c) = rev (ce_ds E) /\ ce_dl E = [] /\
+      exists k outer cur, c_symbols st = ltab [] SGlobal k outer cur /\
+        flat outer cur = map fst (ce_ds E) /\ (length (flat outer cur) <= k)%nat
+  | MFun =>
+      exists g c0 mids k outer cur,
+        d_global c = Some g /\ concat (d_local c) = rev (ce_dl E) /\
+        concat g = rev (firstn (ce_nf E) (ce_ds E)) /\ (ce_nf E <= ce_L E)%nat /\
+        c_symbols st = ltab (c0 :: mids) SLocal k outer cur /\ pre_ok (c0 :: mids) SLocal /\
+        flat outer cur = map fst (ce_dl E) /\ ScopeSpec.flat c0 = map fst (firstn (ce_nf E) (ce_ds E)) /\
+        (length (flat outer cur) <= k)%nat
+  end.
+
+(* max_size of the current context *)
+Definition cmax (st : cstate) : nat := c_max (current_context (c_symbols st)).
+
+Lemma cmax_ltab : forall st pre sc k outer cur, c_symbols st = ltab pre sc k outer cur -> cmax st = k.
+Proof. intros st pre sc k outer cur H. unfold cmax. rewrite H. unfold ltab. rewrite SymbolsProofs.current_context_snoc. reflexivity. Qed.
+
+(* the shape of the table: everything but max_size of the current context *)
+Definition same_shape (st st1 : cstate) : Prop :=
+  exists pre sc k k1 outer cur, c_symbols st = ltab pre sc k outer cur /\ c_symbols st1 = ltab pre sc k1 outer cur /\
+    (k <= k1)%nat.
+
+Lemma ltab_inj : forall pre sc k outer cur pre' sc' k' outer' cur',
+  ltab pre sc k outer cur = ltab pre' sc' k' outer' cur' ->
+  pre = pre' /\ sc = sc' /\ k = k' /\ outer = outer' /\ cur = cur'.
+Proof.
+  intros pre sc k outer cur pre' sc' k' outer' cur' H. unfold ltab in H.
+  apply app_inj_tail in H. destruct H as [-> H]. inversion H as [[H1 H2 H3]]. apply app_inj_tail in H3.
+  destruct H3 as [-> ->]. auto.
+Qed.
+
+Lemma ctx_ok_shape : forall st st1 c E, same_shape st st1 -> ctx_ok st c E -> ctx_ok st1 c E /\ (cmax st <= cmax st1)%nat.
+Proof.
+  intros st st1 c E [pre [sc [k [k1 [outer [cur [Hs [Hs1 Hk]]]]]]]] H. unfold ctx_ok in *.
+  rewrite (cmax_ltab _ _ _ _ _ _ Hs), (cmax_ltab _ _ _ _ _ _ Hs1). split; [|exact Hk].
+  destruct (ce_mode E).
+  - destruct H as [H1 [H2 [H3 [k0 [outer0 [cur0 [H4 [H5 H6]]]]]]]].
+    rewrite Hs in H4. apply ltab_inj in H4. destruct H4 as [-> [-> [-> [-> ->]]]].
+    split; [exact H1|]. split; [exact H2|]. split; [exact H3|]. exists k1, outer0, cur0. split; [exact Hs1|]. split; [exact H5|lia].
+  - destruct H as [g [c0 [mids [k0 [outer0 [cur0 [H1 [H2 [H3 [H4 [H5 [H6 [H7 [H8 H9]]]]]]]]]]]]]].
+    rewrite Hs in H5. apply ltab_inj in H5. destruct H5 as [-> [-> [-> [-> ->]]]].
+    exists g, c0, mids, k1, outer0, cur0. repeat (split; [assumption|]). lia.
+Qed.
+
+(** * Static facts from part F: what compilation does to the symbol table *)
+
+Definition wfshape (st : cstate) (pre : list context) (sc : scope) (k : nat) (outer : list (list text)) (cur : list text) : Prop :=
+  c_symbols st = ltab pre sc k outer cur /\ pre_ok pre sc /\ (length (flat outer cur) <= k)%nat.
+
+Lemma shape_expr : forall e lp fa fn st st' pre sc k outer cur, f3e lp fa fn e = true ->
+  compile_expression e st = Ok st' -> wfshape st pre sc k outer cur ->
+  exists k', wfshape st' pre sc k' outer cur /\ (k <= k')%nat.
+Proof.
+  intros e lp fa fn st st' pre sc k outer cur HF Hc [Hs [Hp Hw]].
+  destruct (esim_all dummy_orc e lp fa fn st st' pre sc k outer cur HF Hs Hp Hw Hc) as [ce [nb [k' [CF [Hk _]]]]].
+  exists k'. split; [|exact Hk]. split; [exact (cf3_syms _ _ _ _ _ _ _ _ _ CF)|]. split; [exact Hp|exact (cf3_wf _ _ _ _ _ _ _ _ _ CF)].
+Qed.
+
+Lemma shape_bv : forall b lp fa fn st st' pre sc k outer cur, f3b lp fa fn b = true ->
+  c_block_value b st = Ok st' -> wfshape st pre sc k outer cur ->
+  exists k', wfshape st' pre sc k' outer cur /\ (k <= k')%nat.
+Proof.
+  intros b lp fa fn st st' pre sc k outer cur HF Hc [Hs [Hp Hw]].
+  destruct (bv_sim dummy_orc b (lsim_all dummy_orc b) lp fa fn st st' pre sc k outer cur HF Hs Hp Hw Hc)
+    as [ce [nb [k' [CF [Hk _]]]]].
+  exists k'. split; [|exact Hk]. split; [exact (cf3_syms _ _ _ _ _ _ _ _ _ CF)|]. split; [exact Hp|exact (cf3_wf _ _ _ _ _ _ _ _ _ CF)].
+Qed.
+
+Lemma shape_exprs : forall args fa fn st st' pre sc k outer cur, f3es fa fn args = true ->
+  CompilerNames.compile_exprs args st = Ok st' -> wfshape st pre sc k outer cur ->
+  exists k', wfshape st' pre sc k' outer cur /\ (k <= k')%nat.
+Proof.
+  intros args fa fn st st' pre sc k outer cur HF Hc [Hs [Hp Hw]].
+  assert (Forall (esim dummy_orc) args) as Ha by (apply Forall_forall; intros x _; apply esim_all).
+  destruct (asim_all dummy_orc args Ha fa fn st st' pre sc k outer cur HF Hs Hp Hw Hc) as [ce [nb [k' [CF [Hk _]]]]].
+  exists k'. split; [|exact Hk]. split; [exact (cf3_syms _ _ _ _ _ _ _ _ _ CF)|]. split; [exact Hp|exact (cf3_wf _ _ _ _ _ _ _ _ _ CF)].
+Qed.
+
+Lemma shape_stmts : forall l lp fa fn st st' pre sc k outer cur, f3b lp fa fn l = true ->
+  compile_statements l st = Ok st' -> wfshape st pre sc k outer cur ->
+  exists k', wfshape st' pre sc k' outer (cur ++ decl_names3 l) /\ (k <= k')%nat.
+Proof.
+  intros l lp fa fn st st' pre sc k outer cur HF Hc [Hs [Hp Hw]].
+  destruct (lsim_all dummy_orc l lp fa fn st st' pre sc k outer cur HF Hs Hp Hw Hc) as [ce [nb [k' [[CF _] Hk]]]].
+  exists k'. split; [|exact Hk]. split; [exact (cf3_syms _ _ _ _ _ _ _ _ _ CF)|]. split; [exact Hp|exact (cf3_wf _ _ _ _ _ _ _ _ _ CF)].
+Qed.
+
+Lemma shape_stmt : forall s lp fa fn st st' pre sc k outer cur, f3s lp fa fn s = true ->
+  compile_statement s st = Ok st' -> wfshape st pre sc k outer cur ->
+  exists k', wfshape st' pre sc k' outer (cur ++ decl_names3 [s]) /\ (k <= k')%nat.
+Proof.
+  intros s lp fa fn st st' pre sc k outer cur HF Hc W.
+  apply (shape_stmts [s] lp fa fn st st' pre sc k outer cur); [rewrite f3b_cons, HF; reflexivity| |exact W].
+  cbn [compile_statements]. rewrite Hc. reflexivity.
+Qed.
+
+Lemma ctx_ok_wfshape : forall st c E, ctx_ok st c E ->
+  exists pre sc k outer cur, wfshape st pre sc k outer cur /\
+    match ce_mode E with
+    | MTop => pre = [] /\ sc = SGlobal /\ flat outer cur = map fst (ce_ds E)
+    | MFun => sc = SLocal /\ flat outer cur = map fst (ce_dl E)
+    end.
+Proof.
+  intros st c E H. unfold ctx_ok in H. destruct (ce_mode E).
+  - destruct H as [_ [_ [_ [k [outer [cur [H4 [H5 H6]]]]]]]]. exists [], SGlobal, k, outer, cur.
+    split; [|auto]. split; [exact H4|]. split; [split; [reflexivity|constructor]|exact H6].
+  - destruct H as [g [c0 [mids [k [outer [cur [_ [_ [_ [_ [H5 [H6 [H7 [_ H9]]]]]]]]]]]]]].
+    exists (c0 :: mids), SLocal, k, outer, cur. split; [|auto]. split; [exact H5|]. split; [exact H6|exact H9].
+Qed.
+
+Lemma wfshape_same : forall st st1 pre sc k k1 outer cur, wfshape st pre sc k outer cur -> wfshape st1 pre sc k1 outer cur ->
+  (k <= k1)%nat -> same_shape st st1.
+Proof.
+  intros st st1 pre sc k k1 outer cur [H1 _] [H2 _] Hk. exists pre, sc, k, k1, outer, cur. auto.
+Qed.
+
+Lemma wfshape_eq : forall st st1 pre sc k outer cur, wfshape st pre sc k outer cur -> c_symbols st1 = c_symbols st ->
+  wfshape st1 pre sc k outer cur.
+Proof. intros st st1 pre sc k outer cur [H1 [H2 H3]] E. split; [congruence|auto]. Qed.
+
+(* the table after a sub-expression describes the same declarations *)
+Lemma ctx_ok_expr : forall e lp fa fn st st' c E, f3e lp fa fn e = true -> compile_expression e st = Ok st' ->
+  ctx_ok st c E -> ctx_ok st' c E /\ (cmax st <= cmax st')%nat.
+Proof.
+  intros e lp fa fn st st' c E HF Hc H. destruct (ctx_ok_wfshape st c E H) as [pre [sc [k [outer [cur [W _]]]]]].
+  destruct (shape_expr e lp fa fn st st' pre sc k outer cur HF Hc W) as [k' [W' Hk]].
+  exact (ctx_ok_shape st st' c E (wfshape_same _ _ _ _ _ _ _ _ W W' Hk) H).
+Qed.
+
+Lemma ctx_ok_syms : forall st st1 c E, c_symbols st1 = c_symbols st -> ctx_ok st c E -> ctx_ok st1 c E /\ cmax st1 = cmax st.
+Proof.
+  intros st st1 c E Hs H. split; [|unfold cmax; rewrite Hs; reflexivity].
+  unfold ctx_ok in *. rewrite Hs. exact H.
+Qed.
+
+(** * Names: the compiler's resolution against Sem's lookup *)
+
+Lemma resolve_fun_ltab : forall c0 mids k outer cur x,
+  resolve (ltab (c0 :: mids) SLocal k outer cur) x =
+  match rposition x (flat outer cur) with
+  | Some i => Some (mkSymbol SLocal i)
+  | None => option_map (mkSymbol (c_scope c0)) (rposition x (ScopeSpec.flat c0))
+  end.
+Proof.
+  intros. unfold ltab. rewrite SymbolsProofs.resolve_snoc. unfold ScopeSpec.spec_lookup. cbn [c_scope].
+  rewrite <- !SymbolsProofs.rposition_last_occ. unfold ScopeSpec.flat at 1. cbn [c_syms]. rewrite concat_flat.
+  destruct (rposition x (flat outer cur)); reflexivity.
+Qed.
+
+Lemma lookup_decls : forall (ds : decls) x,
+  match rposition x (map fst ds) with
+  | Some i => exists y c, nth_error ds i = Some (y, c) /\ scope_find x (rev ds) = Some c /\ text_eqb y x = true
+  | None => scope_find x (rev ds) = None
+  end.
+Proof.
+  intros ds x. pose proof (lookup_agree ds x) as H. destruct (rposition x (map fst ds)) as [i|] eqn:E; [|exact H].
+  destruct H as [y [c [H1 H2]]]. exists y, c. split; [exact H1|]. split; [exact H2|].
+  destruct (rposition_name x _ i E) as [y1 [H3 H4]]. rewrite nth_error_map, H1 in H3. cbn [option_map fst] in H3.
+  inversion H3; subst. exact H4.
+Qed.
+
+Lemma lookup_rel : forall st c E x, ctx_ok st c E ->
+  match resolve (c_symbols st) x with
+  | None => d_lookup c x = None
+  | Some sy => exists y cell, d_lookup c x = Some cell /\ text_eqb y x = true /\
+      match s_scope sy with
+      | SLocal => ce_mode E = MFun /\ nth_error (ce_dl E) (s_index sy) = Some (y, cell)
+      | SGlobal => nth_error (ce_ds E) (s_index sy) = Some (y, cell) /\
+                   (ce_mode E = MFun -> (s_index sy < ce_nf E)%nat)
+      end
+  end.
+Proof.
+  intros st c E x H. unfold ctx_ok in H. destruct (ce_mode E) eqn:Em.
+  - destruct H as [H1 [H2 [H3 [k [outer [cur [H4 [H5 H6]]]]]]]].
+    rewrite H4. change (ltab [] SGlobal k outer cur) with (stab k outer cur). rewrite resolve_stab, H5.
+    unfold d_lookup. rewrite H1, denv_find_concat, H2.
+    pose proof (lookup_decls (ce_ds E) x) as L. destruct (rposition x (map fst (ce_ds E))) as [i|]; cbn [option_map].
+    + destruct L as [y [cell [L1 [L2 L3]]]]. exists y, cell. rewrite L2. split; [reflexivity|]. split; [exact L3|].
+      cbn [s_scope s_index]. split; [exact L1|intros N; discriminate N].
+    + rewrite L. reflexivity.
+  - destruct H as [g [c0 [mids [k [outer [cur [H1 [H2 [H3 [H4 [H5 [H6 [H7 [H8 H9]]]]]]]]]]]]]].
+    rewrite H5, resolve_fun_ltab, H7, H8. unfold d_lookup. rewrite H1, !denv_find_concat, H2, H3.
+    pose proof (lookup_decls (ce_dl E) x) as L. destruct (rposition x (map fst (ce_dl E))) as [i|].
+    + destruct L as [y [cell [L1 [L2 L3]]]]. exists y, cell. rewrite L2. split; [reflexivity|]. split; [exact L3|].
+      cbn [s_scope s_index]. auto.
+    + rewrite L. pose proof (lookup_decls (firstn (ce_nf E) (ce_ds E)) x) as G.
+      destruct (rposition x (map fst (firstn (ce_nf E) (ce_ds E)))) as [j|]; cbn [option_map].
+      * destruct G as [y [cell [G1 [G2 G3]]]]. exists y, cell. rewrite G2. split; [reflexivity|]. split; [exact G3|].
+        assert (c_scope c0 = SGlobal) as -> by (destruct H6 as [[A _] _]; exact A).
+        cbn [s_scope s_index].
+        assert (j < ce_nf E)%nat as Hj.
+        { assert (j < length (firstn (ce_nf E) (ce_ds E)))%nat by (apply nth_error_Some; rewrite G1; discriminate).
+          rewrite firstn_length in H. lia. }
+        split; [|intros _; exact Hj]. rewrite <- G1. symmetry. apply VMStepProofs.nth_error_firstn'. exact Hj.
+      * rewrite G. reflexivity.
+Qed.
+
+(** * The state relation *)
+
+Definition clo_rel (ds : decls) (L : nat) (gh : list nat) (clo : closure) (fe : fentry) : Prop :=
+  k_params clo = fe_ps fe /\ k_body clo = fe_body fe /\ f3b false true true (fe_body fe) = true /\
+  exists nf c0 mids st4,
+    (nf <= L)%nat /\ concat (k_genv clo) = rev (firstn nf ds) /\
+    c_symbols (fe_st fe) = ltab (c0 :: mids) SLocal (length (fe_ps fe)) [] (fe_ps fe) /\
+    pre_ok (c0 :: mids) SLocal /\ ScopeSpec.flat c0 = map fst (firstn nf ds) /\
+    c_block_statement (fe_body fe) (fe_st fe) = Ok st4 /\
+    fe_n fe = Z.of_nat (cmax st4) /\
+    (forall h y c, In h gh -> (h < nf)%nat -> nth_error ds h = Some (y, c) -> mentions_b y (fe_body fe) = false).
+
+Record Rel3 (Sall : fentry -> Prop) (E : cenv) (F : list fentry) (sst : sstate) (y : yst) : Prop := mkRel3 {
+  r_heap : st_heap sst = m_heap (y_m y);
+  r_gc : objects (m_gc (y_m y)) = [];
+  r_L : (ce_L E <= length (ce_ds E))%nat;
+  r_nodup : NoDup (map snd (ce_ds E ++ ce_dl E));
+  r_gval : forall i x c, nth_error (ce_ds E) i = Some (x, c) -> ~ In i (ce_gh E) ->
+             vrel F (get_cell c sst) (nth i (m_gl (y_m y)) VNull);
+  r_lval : forall i x c, nth_error (ce_dl E) i = Some (x, c) -> ~ In i (ce_lh E) ->
+             vrel F (get_cell c sst) (nth i (y_loc y) VNull);
+  r_fresh : forall c, In c (map snd (ce_ds E ++ ce_dl E)) -> (c < st_next sst)%positive;
+  r_unset : forall c, (st_next sst <= c)%positive -> PM.find c (st_cells sst) = None;
+  r_flen : length F = length (st_funs sst);
+  r_clo : forall id fe, nth_error F id = Some fe ->
+            In fe (y_funs y) /\
+            exists clo, nth_error (st_funs sst) id = Some clo /\ clo_rel (ce_ds E) (ce_L E) (ce_gh E) clo fe;
+  r_sall : forall fe, In fe (y_funs y) -> Sall fe;
+  r_ghlt : forall h, In h (ce_gh E) -> (h < length (ce_ds E))%nat;
+  r_lhlt : forall h, In h (ce_lh E) -> (h < length (ce_dl E))%nat;
+  r_N : length (y_loc y) = ce_N E
+}.
+
+(* what an evaluation may change in Sem's state: the cells of visible declarations and new cells *)
+Definition frame (E : cenv) (sst sst' : sstate) : Prop :=
+  st_out sst' = st_out sst /\ (st_next sst <= st_next sst')%positive /\
+  forall c, (c < st_next sst)%positive -> ~ In c (map snd (ce_ds E ++ ce_dl E)) ->
+            PM.find c (st_cells sst') = PM.find c (st_cells sst).
+
+Lemma frame_refl : forall E sst, frame E sst sst.
+Proof. intros. split; [reflexivity|]. split; [lia|auto]. Qed.
+
+(* declarations added to the current context, at depth 0 of the top level also to the closures' view *)
+Definition env_ext (E E' : cenv) : Prop :=
+  ce_mode E' = ce_mode E /\ ce_nf E' = ce_nf E /\ ce_gh E' = ce_gh E /\ ce_lh E' = ce_lh E /\ ce_N E' = ce_N E /\
+  match ce_mode E with
+  | MTop => (exists ext, ce_ds E' = ce_ds E ++ ext) /\ ce_dl E' = ce_dl E /\ (ce_L E <= ce_L E')%nat
+  | MFun => (exists ext, ce_dl E' = ce_dl E ++ ext) /\ ce_ds E' = ce_ds E /\ ce_L E' = ce_L E
+  end.
+
+Lemma env_ext_refl : forall E, env_ext E E.
+Proof.
+  intros E. unfold env_ext. repeat (split; [reflexivity|]). destruct (ce_mode E);
+    (split; [exists []; rewrite app_nil_r; reflexivity|split; [reflexivity|auto]]).
+Qed.
+
+Lemma env_ext_trans : forall E1 E2 E3, env_ext E1 E2 -> env_ext E2 E3 -> env_ext E1 E3.
+Proof.
+  intros E1 E2 E3 [A1 [A2 [A3 [A4 [A6 A5]]]]] [B1 [B2 [B3 [B4 [B6 B5]]]]]. unfold env_ext.
+  split; [congruence|]. split; [congruence|]. split; [congruence|]. split; [congruence|]. split; [congruence|].
+  rewrite A1 in B5. destruct (ce_mode E1).
+  - destruct A5 as [[x1 X1] [Y1 Z1]]. destruct B5 as [[x2 X2] [Y2 Z2]].
+    split; [exists (x1 ++ x2); rewrite X2, X1, app_assoc; reflexivity|]. split; [congruence|lia].
+  - destruct A5 as [[x1 X1] [Y1 Z1]]. destruct B5 as [[x2 X2] [Y2 Z2]].
+    split; [exists (x1 ++ x2); rewrite X2, X1, app_assoc; reflexivity|]. split; congruence.
+Qed.
+
+Section Corr.
+  Variable Sall : fentry -> Prop.
+
+  (* the results of Sem and of the evaluator; E' describes the declarations after the evaluation *)
+  Definition corr (E E' : cenv) (F : list fentry) (sst : sstate) (r : res val) (x : yres val) : Prop :=
+    match r, x with
+    | RFuel, _ => True
+    | RErr EArgumentError _, _ => True
+    | _, YExcl => True
+    | ROk vs sst', YOk vy y' => exists X, vrel (F ++ X) vs vy /\ Rel3 Sall E' (F ++ X) sst' y' /\ frame E sst sst'
+    | RSig SigBreak sst', YBrk y' => exists X, Rel3 Sall E' (F ++ X) sst' y' /\ frame E sst sst'
+    | RSig SigContinue sst', YCnt y' => exists X, Rel3 Sall E' (F ++ X) sst' y' /\ frame E sst sst'
+    | RSig (SigReturn vs) sst', YRet vy y' =>
+        exists X, vrel (F ++ X) vs vy /\ Rel3 Sall E' (F ++ X) sst' y' /\ frame E sst sst'
+    | RErr k _, YErr k' => k' = k
+    | RFault f _, YFault f' => f' = f
+    | _, _ => False
+    end.
+End Corr.
+
+(** * Composition *)
+
+Lemma frame_trans : forall E sst sst1 sst2, frame E sst sst1 -> frame E sst1 sst2 -> frame E sst sst2.
+Proof.
+  intros E sst sst1 sst2 [A1 [A2 A3]] [B1 [B2 B3]]. split; [congruence|]. split; [lia|].
+  intros c Hc Hn. rewrite B3; [apply A3; assumption|lia|exact Hn].
+Qed.
+
+(* a frame condition for an environment with more declarations, all of them new cells *)
+Lemma frame_ext : forall E E' sst sst1 sst2, frame E sst sst1 -> frame E' sst1 sst2 ->
+  (forall c, In c (map snd (ce_ds E' ++ ce_dl E')) -> In c (map snd (ce_ds E ++ ce_dl E)) \/ (st_next sst <= c)%positive) ->
+  frame E sst sst2.
+Proof.
+  intros E E' sst sst1 sst2 [A1 [A2 A3]] [B1 [B2 B3]] Hsub. split; [congruence|]. split; [lia|].
+  intros c Hc Hn. rewrite B3; [apply A3; assumption|lia|].
+  intros Hin. destruct (Hsub c Hin) as [H|H]; [exact (Hn H)|lia].
+Qed.
+
+Section CorrLemmas.
+  Variable Sall : fentry -> Prop.
+
+  Lemma corr_shift : forall E E2 F X sst sst1 r x, frame E sst sst1 ->
+    corr Sall E E2 (F ++ X) sst1 r x -> corr Sall E E2 F sst r x.
+  Proof.
+    intros E E2 F X sst sst1 r x Hf H.
+    destruct r as [vs s'|[| |rv] s'|k s'|f s'|]; destruct x as [vy y'|y'|y'|vy y'|k'|f'| |]; cbn [corr] in *;
+      try exact I; try contradiction; try exact H;
+      try (destruct k; try exact I; try contradiction; exact H).
+    - destruct H as [X' [V [R Fr]]]. exists (X ++ X'). rewrite app_assoc. split; [exact V|]. split; [exact R|].
+      exact (frame_trans _ _ _ _ Hf Fr).
+    - destruct H as [X' [R Fr]]. exists (X ++ X'). rewrite app_assoc. split; [exact R|exact (frame_trans _ _ _ _ Hf Fr)].
+    - destruct H as [X' [R Fr]]. exists (X ++ X'). rewrite app_assoc. split; [exact R|exact (frame_trans _ _ _ _ Hf Fr)].
+    - destruct H as [X' [V [R Fr]]]. exists (X ++ X'). rewrite app_assoc. split; [exact V|]. split; [exact R|].
+      exact (frame_trans _ _ _ _ Hf Fr).
+  Qed.
+
+  Lemma corr_bind : forall E F sst r x (k : val -> sstate -> res val) (kx : val -> yst -> yres val),
+    corr Sall E E F sst r x ->
+    (forall vs sst1 vy y1 X, vrel (F ++ X) vs vy -> Rel3 Sall E (F ++ X) sst1 y1 -> frame E sst sst1 ->
+       corr Sall E E (F ++ X) sst1 (k vs sst1) (kx vy y1)) ->
+    corr Sall E E F sst (rbind r k) (ybind x kx).
+  Proof.
+    intros E F sst r x k kx H Hk.
+    destruct r as [vs s'|[| |rv] s'|e s'|f s'|]; destruct x as [vy y'|y'|y'|vy y'|k'|f'| |]; cbn [corr rbind ybind] in *;
+      try exact I; try contradiction; try exact H;
+      try (destruct e; try exact I; try contradiction; exact H).
+    - destruct H as [X [V [R Fr]]]. apply (corr_shift E E F X sst s' _ _ Fr). apply Hk; assumption.
+    - destruct (k vs s') as [a b|[| |c] b|e b|f b|]; try exact I. destruct e; exact I.
+  Qed.
+
+  Lemma corr_fuel : forall E E' F sst x, corr Sall E E' F sst RFuel x.
+  Proof. intros. destruct x; exact I. Qed.
+
+  Lemma corr_argerr : forall E E' F sst s' x, corr Sall E E' F sst (RErr EArgumentError s') x.
+  Proof. intros. destruct x; exact I. Qed.
+
+  Lemma corr_excl : forall E E' F sst r, corr Sall E E' F sst r YExcl.
+  Proof. intros. destruct r as [vs s'|[| |rv] s'|e s'|f s'|]; try exact I. destruct e; exact I. Qed.
+
+  Lemma corr_err : forall E E' F sst k s', corr Sall E E' F sst (RErr k s') (YErr k).
+  Proof. intros. destruct k; cbn [corr]; auto. Qed.
+End CorrLemmas.
+
+(** * Maintaining the state relation *)
+
+Definition set_gh (E : cenv) (gh : list nat) : cenv :=
+  mkCE (ce_mode E) (ce_ds E) (ce_dl E) (ce_nf E) (ce_L E) gh (ce_lh E) (ce_N E).
+Definition set_lh (E : cenv) (lh : list nat) : cenv :=
+  mkCE (ce_mode E) (ce_ds E) (ce_dl E) (ce_nf E) (ce_L E) (ce_gh E) lh (ce_N E).
+
+Lemma cenv_eta : forall E, mkCE (ce_mode E) (ce_ds E) (ce_dl E) (ce_nf E) (ce_L E) (ce_gh E) (ce_lh E) (ce_N E) = E.
+Proof. destruct E; reflexivity. Qed.
+
+Lemma NoDup_app_l : forall A (a b : list A), NoDup (a ++ b) -> NoDup a.
+Proof. exact NoDup_prefix. Qed.
+
+Lemma NoDup_app_r : forall A (a b : list A), NoDup (a ++ b) -> NoDup b.
+Proof. intros A a b H. induction a as [|x a IH]; [exact H|]. inversion H; subst. apply IH. assumption. Qed.
+
+Lemma NoDup_app_disj : forall A (a b : list A) x, NoDup (a ++ b) -> In x a -> ~ In x b.
+Proof.
+  intros A a b x H Ha Hb. induction a as [|y a IH]; [destruct Ha|]. cbn [app] in H. inversion H; subst.
+  destruct Ha as [->|Ha]; [apply H2; apply in_or_app; right; exact Hb|exact (IH H3 Ha)].
+Qed.
+
+Lemma clo_rel_gh : forall ds L gh gh' clo fe, (forall h, In h gh' -> In h gh) ->
+  clo_rel ds L gh clo fe -> clo_rel ds L gh' clo fe.
+Proof.
+  intros ds L gh gh' clo fe Hsub [A [B [C [nf [c0 [mids [st4 [D1 [D2 [D3 [D4 [D5 [D6 [D7 D8]]]]]]]]]]]]]].
+  split; [exact A|]. split; [exact B|]. split; [exact C|]. exists nf, c0, mids, st4.
+  repeat (split; [assumption|]). intros h y c Hin. apply D8. apply Hsub. exact Hin.
+Qed.
+
+Section RelLemmas.
+  Variable Sall : fentry -> Prop.
+
+  Lemma vrel_refl_scalar : forall F v, scalar v = true -> vrel F v v.
+  Proof. intros F v H. destruct v; try discriminate H; cbn [vrel]; auto. Qed.
+
+  (* an operator result: a scalar and the heap untouched, or an error *)
+  Lemma lift_same : forall E F sst y (r : outcome (val * heap)), Rel3 Sall E F sst y ->
+    match r with Ok (v, h') => h' = st_heap sst /\ scalar v = true | Err _ => True | _ => False end ->
+    corr Sall E E F sst (lift_heap sst r) (ylift_h y r).
+  Proof.
+    intros E F sst y r HR H. destruct r as [[v h']|k| |]; try contradiction.
+    - destruct H as [-> Sv]. cbn [lift_heap ylift_h corr fst]. exists []. rewrite app_nil_r.
+      split; [apply vrel_refl_scalar; exact Sv|].
+      assert (mkSt (st_heap sst) (st_cells sst) (st_next sst) (st_funs sst) (st_out sst) = sst) as -> by (destruct sst; reflexivity).
+      rewrite (r_heap _ _ _ _ _ HR), with_new_m_same, yst_eta. split; [exact HR|apply frame_refl].
+    - cbn [lift_heap ylift_h]. apply corr_err.
+  Qed.
+
+  Lemma lift_plain_same : forall E F sst y (r : outcome val), Rel3 Sall E F sst y ->
+    match r with Ok v => scalar v = true | Err _ => True | _ => False end ->
+    corr Sall E E F sst (lift_plain sst r) (ylift_p y r).
+  Proof.
+    intros E F sst y r HR H. destruct r as [v|k| |]; try contradiction.
+    - cbn [lift_plain ylift_p corr]. exists []. rewrite app_nil_r.
+      split; [apply vrel_refl_scalar; exact H|]. split; [exact HR|apply frame_refl].
+    - cbn [lift_plain ylift_p]. apply corr_err.
+  Qed.
+
+  Lemma Rel3_set_global : forall E F sst y i x c v v' gh', Rel3 Sall E F sst y ->
+    nth_error (ce_ds E) i = Some (x, c) -> vrel F v v' ->
+    (forall j, ~ In j gh' -> j = i \/ ~ In j (ce_gh E)) -> (forall h, In h gh' -> In h (ce_gh E)) ->
+    Rel3 Sall (set_gh E gh') F (set_cell c v sst) (mkY (set_global_m i v' (y_m y)) (y_loc y) (y_funs y)).
+  Proof.
+    intros E F sst y i x c v v' gh' [R1 R2 R3 R4 R5 R6 R7 R8 R9 R10 R11 R12 R13 R14] Hi Hv Hh Hsub.
+    assert (In c (map snd (ce_ds E))) as Hcin.
+    { apply in_map_iff. exists (x, c). split; [reflexivity|exact (nth_error_In _ _ Hi)]. }
+    constructor; cbn [set_gh ce_mode ce_ds ce_dl ce_nf ce_L ce_gh ce_lh ce_N set_cell set_global_m st_heap st_cells st_next st_funs
+                      y_m y_loc y_funs m_heap m_gc m_gl]; auto.
+    - intros j y0 c0 Hj Hnj. destruct (Nat.eq_dec i j) as [->|Hne].
+      + assert (c0 = c) as -> by congruence. rewrite get_set_cell_same, nth_set_global_same. exact Hv.
+      + rewrite nth_set_global_other by exact Hne. rewrite get_set_cell_other.
+        * apply (R5 j y0); [exact Hj|]. destruct (Hh j Hnj) as [->|Hn]; [contradiction|exact Hn].
+        * intros ->. apply Hne. rewrite map_app in R4.
+          exact (NoDup_snd_nth (ce_ds E) i j x c y0 (NoDup_app_l _ _ _ R4) Hi Hj).
+    - intros j y0 c0 Hj Hnj. rewrite get_set_cell_other; [exact (R6 j y0 c0 Hj Hnj)|].
+      intros ->. rewrite map_app in R4. apply (NoDup_app_disj _ _ _ c R4 Hcin).
+      apply in_map_iff. exists (y0, c). split; [reflexivity|exact (nth_error_In _ _ Hj)].
+    - intros c0 Hc0. rewrite PM.gso; [apply R8; exact Hc0|]. intros ->.
+      assert (c < st_next sst)%positive by (apply R7; rewrite map_app; apply in_or_app; left; exact Hcin). lia.
+    - intros id fe Hn. destruct (R10 id fe Hn) as [A [clo [B C]]]. split; [exact A|]. exists clo. split; [exact B|].
+      exact (clo_rel_gh _ _ _ _ _ _ Hsub C).
+  Qed.
+
+  Lemma Rel3_set_local : forall E F sst y i x c v v' lh', Rel3 Sall E F sst y ->
+    nth_error (ce_dl E) i = Some (x, c) -> vrel F v v' -> (i < length (y_loc y))%nat ->
+    (forall j, ~ In j lh' -> j = i \/ ~ In j (ce_lh E)) -> (forall h, In h lh' -> In h (ce_lh E)) ->
+    Rel3 Sall (set_lh E lh') F (set_cell c v sst) (mkY (y_m y) (replace_nth i v' (y_loc y)) (y_funs y)).
+  Proof.
+    intros E F sst y i x c v v' lh' [R1 R2 R3 R4 R5 R6 R7 R8 R9 R10 R11 R12 R13 R14] Hi Hv Hlt Hh Hsub.
+    assert (In c (map snd (ce_dl E))) as Hcin.
+    { apply in_map_iff. exists (x, c). split; [reflexivity|exact (nth_error_In _ _ Hi)]. }
+    constructor; cbn [set_lh ce_mode ce_ds ce_dl ce_nf ce_L ce_gh ce_lh ce_N set_cell st_heap st_cells st_next st_funs
+                      y_m y_loc y_funs]; auto.
+    - intros j y0 c0 Hj Hnj. rewrite get_set_cell_other; [exact (R5 j y0 c0 Hj Hnj)|].
+      intros ->. rewrite map_app in R4. apply (NoDup_app_disj _ _ _ c R4); [|exact Hcin].
+      apply in_map_iff. exists (y0, c). split; [reflexivity|exact (nth_error_In _ _ Hj)].
+    - intros j y0 c0 Hj Hnj. destruct (Nat.eq_dec i j) as [->|Hne].
+      + assert (c0 = c) as -> by congruence. rewrite get_set_cell_same, nth_replace_nth_same by exact Hlt. exact Hv.
+      + rewrite nth_replace_nth_other by exact Hne. rewrite get_set_cell_other.
+        * apply (R6 j y0); [exact Hj|]. destruct (Hh j Hnj) as [->|Hn]; [contradiction|exact Hn].
+        * intros ->. apply Hne. rewrite map_app in R4.
+          exact (NoDup_snd_nth (ce_dl E) i j x c y0 (NoDup_app_r _ _ _ R4) Hi Hj).
+    - intros c0 Hc0. rewrite PM.gso; [apply R8; exact Hc0|]. intros ->.
+      assert (c < st_next sst)%positive by (apply R7; rewrite map_app; apply in_or_app; right; exact Hcin). lia.
+    - rewrite length_replace_nth. exact R14.
+  Qed.
+
+  Lemma clo_rel_grow : forall ds d L L' gh clo fe, (L <= length ds)%nat -> (L <= L')%nat ->
+    clo_rel ds L gh clo fe -> clo_rel (ds ++ d) L' (length ds :: gh) clo fe.
+  Proof.
+    intros ds d L L' gh clo fe HL HL' [A [B [C [nf [c0 [mids [st4 [D1 [D2 [D3 [D4 [D5 [D6 [D7 D8]]]]]]]]]]]]]].
+    split; [exact A|]. split; [exact B|]. split; [exact C|]. exists nf, c0, mids, st4.
+    assert (firstn nf (ds ++ d) = firstn nf ds) as Ef.
+    { rewrite firstn_app. replace (nf - length ds)%nat with O by lia. cbn [firstn]. apply app_nil_r. }
+    rewrite Ef. split; [lia|]. repeat (split; [assumption|]).
+    intros h y c [<-|Hin] Hlt Hn; [lia|]. apply (D8 h y c Hin Hlt).
+    rewrite nth_error_app1 in Hn by lia. exact Hn.
+  Qed.
+
+  (* a declaration at the top level: a new global slot, not yet written *)
+  Lemma Rel3_declare_top : forall E F sst y x L', Rel3 Sall E F sst y -> ce_mode E = MTop -> ce_dl E = [] ->
+    (ce_L E <= L')%nat -> (L' <= S (length (ce_ds E)))%nat ->
+    Rel3 Sall (mkCE MTop (ce_ds E ++ [(x, st_next sst)]) [] (ce_nf E) L' (length (ce_ds E) :: ce_gh E) (ce_lh E) (ce_N E))
+         F (snd (new_cell sst)) y.
+  Proof.
+    intros E F sst y x L' [R1 R2 R3 R4 R5 R6 R7 R8 R9 R10 R11 R12 R13 R14] Hm Hdl HL1 HL2. rewrite Hdl in *.
+    rewrite app_nil_r in R4, R7. unfold new_cell. cbn [snd].
+    constructor; cbn [ce_mode ce_ds ce_dl ce_nf ce_L ce_gh ce_lh ce_N st_heap st_cells st_next st_funs]; auto.
+    - rewrite app_length. cbn [length]. lia.
+    - rewrite app_nil_r, map_app. cbn [map snd]. apply NoDup_snoc; [exact R4|].
+      intros Hin. specialize (R7 _ Hin). lia.
+    - intros i y0 c Hi Hn. destruct (Nat.lt_ge_cases i (length (ce_ds E))) as [Hlt|Hge].
+      + rewrite nth_error_app1 in Hi by exact Hlt. apply (R5 i y0 c Hi). intros Hin. apply Hn. right. exact Hin.
+      + exfalso. apply Hn. left.
+        assert (i < length (ce_ds E ++ [(x, st_next sst)]))%nat by (apply nth_error_Some; rewrite Hi; discriminate).
+        rewrite app_length in H. cbn [length] in H. lia.
+    - intros c Hin. rewrite app_nil_r, map_app in Hin. apply in_app_or in Hin. destruct Hin as [Hin|[<-|[]]].
+      + specialize (R7 _ Hin). lia.
+      + cbn [snd]. lia.
+    - intros c Hc. apply R8. lia.
+    - intros id fe Hn. destruct (R10 id fe Hn) as [A [clo [B C]]]. split; [exact A|]. exists clo. split; [exact B|].
+      exact (clo_rel_grow _ _ _ _ _ _ _ R3 HL1 C).
+    - intros h [<-|Hin]; rewrite app_length; cbn [length]; [lia|]. specialize (R12 h Hin). lia.
+  Qed.
+
+  (* a declaration inside a function: a new slot of the activation *)
+  Lemma Rel3_declare_fun : forall E F sst y x, Rel3 Sall E F sst y -> ce_mode E = MFun ->
+    Rel3 Sall (mkCE MFun (ce_ds E) (ce_dl E ++ [(x, st_next sst)]) (ce_nf E) (ce_L E) (ce_gh E)
+                    (length (ce_dl E) :: ce_lh E) (ce_N E))
+         F (snd (new_cell sst)) y.
+  Proof.
+    intros E F sst y x [R1 R2 R3 R4 R5 R6 R7 R8 R9 R10 R11 R12 R13 R14] Hm. unfold new_cell. cbn [snd].
+    constructor; cbn [ce_mode ce_ds ce_dl ce_nf ce_L ce_gh ce_lh ce_N st_heap st_cells st_next st_funs]; auto.
+    - rewrite app_assoc, map_app. cbn [map snd]. apply NoDup_snoc; [exact R4|].
+      intros Hin. specialize (R7 _ Hin). lia.
+    - intros i y0 c Hi Hn. destruct (Nat.lt_ge_cases i (length (ce_dl E))) as [Hlt|Hge].
+      + rewrite nth_error_app1 in Hi by exact Hlt. apply (R6 i y0 c Hi). intros Hin. apply Hn. right. exact Hin.
+      + exfalso. apply Hn. left.
+        assert (i < length (ce_dl E ++ [(x, st_next sst)]))%nat by (apply nth_error_Some; rewrite Hi; discriminate).
+        rewrite app_length in H. cbn [length] in H. lia.
+    - intros c Hin. rewrite app_assoc, map_app in Hin. apply in_app_or in Hin. destruct Hin as [Hin|[<-|[]]].
+      + specialize (R7 _ Hin). lia.
+      + cbn [snd]. lia.
+    - intros c Hc. apply R8. lia.
+    - intros h [<-|Hin]; rewrite app_length; cbn [length]; [lia|]. specialize (R13 h Hin). lia.
+  Qed.
+
+  (* a function literal has been evaluated *)
+  Lemma Rel3_newfun : forall E F sst y clo fe, Rel3 Sall E F sst y -> Sall fe ->
+    clo_rel (ce_ds E) (ce_L E) (ce_gh E) clo fe ->
+    Rel3 Sall E (F ++ [fe])
+         (mkSt (st_heap sst) (st_cells sst) (st_next sst) (st_funs sst ++ [clo]) (st_out sst))
+         (mkY (y_m y) (y_loc y) (y_funs y ++ [fe])).
+  Proof.
+    intros E F sst y clo fe [R1 R2 R3 R4 R5 R6 R7 R8 R9 R10 R11 R12 R13 R14] HS HC.
+    constructor; cbn [st_heap st_cells st_next st_funs y_m y_loc y_funs]; auto.
+    - intros i x c Hi Hn. apply vrel_mono. exact (R5 i x c Hi Hn).
+    - intros i x c Hi Hn. apply vrel_mono. exact (R6 i x c Hi Hn).
+    - rewrite !app_length, R9. reflexivity.
+    - intros id fe0 Hn. destruct (Nat.lt_ge_cases id (length F)) as [Hlt|Hge].
+      + rewrite nth_error_app1 in Hn by exact Hlt. destruct (R10 id fe0 Hn) as [A [clo0 [B C]]].
+        split; [apply in_or_app; left; exact A|]. exists clo0. split; [|exact C].
+        rewrite nth_error_app1; [exact B|]. rewrite <- R9. exact Hlt.
+      + rewrite nth_error_app2 in Hn by exact Hge. destruct (id - length F)%nat as [|n] eqn:En; [|destruct n; discriminate Hn].
+        cbn [nth_error] in Hn. inversion Hn; subst fe0. split; [apply in_or_app; right; left; reflexivity|].
+        exists clo. split; [|exact HC]. rewrite nth_error_app2 by lia. replace (id - length (st_funs sst))%nat with O by lia.
+        reflexivity.
+    - intros fe0 Hin. apply in_app_or in Hin. destruct Hin as [Hin|[<-|[]]]; [exact (R11 _ Hin)|exact HS].
+  Qed.
+
+  Lemma clo_rel_restrict : forall ds ext L gh clo fe, (L <= length ds)%nat ->
+    clo_rel (ds ++ ext) L gh clo fe -> clo_rel ds L gh clo fe.
+  Proof.
+    intros ds ext L gh clo fe HL [A [B [C [nf [c0 [mids [st4 [D1 [D2 [D3 [D4 [D5 [D6 [D7 D8]]]]]]]]]]]]]].
+    split; [exact A|]. split; [exact B|]. split; [exact C|]. exists nf, c0, mids, st4.
+    assert (firstn nf (ds ++ ext) = firstn nf ds) as Ef.
+    { rewrite firstn_app. replace (nf - length ds)%nat with O by lia. cbn [firstn]. apply app_nil_r. }
+    rewrite Ef in D2, D5. repeat (split; [assumption|]).
+    intros h y c Hin Hlt Hn. apply (D8 h y c Hin Hlt). rewrite nth_error_app1 by lia. exact Hn.
+  Qed.
+
+  (* leaving a block: the declarations of the block are forgotten *)
+  Lemma Rel3_restrict : forall E E' F sst y, Rel3 Sall E' F sst y -> env_ext E E' -> ce_L E' = ce_L E ->
+    (ce_L E <= length (ce_ds E))%nat ->
+    (forall h, In h (ce_gh E) -> (h < length (ce_ds E))%nat) ->
+    (forall h, In h (ce_lh E) -> (h < length (ce_dl E))%nat) ->
+    Rel3 Sall E F sst y.
+  Proof.
+    intros E E' F sst y [R1 R2 R3 R4 R5 R6 R7 R8 R9 R10 R11 R12 R13 R14] [X1 [X2 [X3 [X4 [X6 X5]]]]] HL HL0 Hg Hl.
+    rewrite X3 in *. rewrite X4 in *. rewrite HL in *. rewrite X6 in *.
+    destruct (ce_mode E) eqn:Em.
+    - destruct X5 as [[ext Hds] [Hdl _]]. rewrite Hds, Hdl in *.
+      constructor; auto.
+      + rewrite map_app in R4 |- *. rewrite map_app in R4.
+        assert (NoDup ((map snd (ce_ds E) ++ map snd ext) ++ map snd (ce_dl E))) as R4' by exact R4.
+        clear R4. rewrite <- app_assoc in R4'.
+        induction (map snd (ce_ds E)) as [|a l IH]; cbn [app] in *.
+        * exact (NoDup_app_r _ _ _ R4').
+        * inversion R4'; subst. constructor; [|apply IH; assumption].
+          intros Hin. apply H1. apply in_app_or in Hin. apply in_or_app. destruct Hin as [Hin|Hin]; [left; exact Hin|].
+          right. apply in_or_app. right. exact Hin.
+      + intros i x c Hi Hn. apply (R5 i x c); [|exact Hn]. rewrite nth_error_app1; [exact Hi|].
+        apply nth_error_Some. rewrite Hi. discriminate.
+      + intros c Hin. apply R7. rewrite map_app in Hin |- *. rewrite map_app. apply in_app_or in Hin.
+        apply in_or_app. destruct Hin as [Hin|Hin]; [left; apply in_or_app; left; exact Hin|right; exact Hin].
+      + intros id fe Hn. destruct (R10 id fe Hn) as [A [clo [B C]]]. split; [exact A|]. exists clo. split; [exact B|].
+        exact (clo_rel_restrict _ _ _ _ _ _ HL0 C).
+    - destruct X5 as [[ext Hdl] [Hds _]]. rewrite Hds, Hdl in *.
+      constructor; auto.
+      + rewrite app_assoc, map_app in R4. exact (NoDup_app_l _ _ _ R4).
+      + intros i x c Hi Hn. apply (R6 i x c); [|exact Hn]. rewrite nth_error_app1; [exact Hi|].
+        apply nth_error_Some. rewrite Hi. discriminate.
+      + intros c Hin. apply R7. rewrite app_assoc, map_app. apply in_or_app. left. exact Hin.
+  Qed.
+End RelLemmas.
+
+(** * Unfolding equations of Sem for functions and calls *)
+
+Section SemEq3.
+  Variable orc : oracle.
+
+  Definition sem_list (f : nat) (c : dctx) : list expr -> sstate -> res (list val) :=
+    fix go (l : list expr) (st : sstate) : res (list val) :=
+      match l with
+      | [] => ROk [] st
+      | x :: r =>
+          rdo (v, st) <- eval_expr orc f c x st;
+          rdo (vs, st) <- go r st;
+          ROk (v :: vs) st
+      end.
+
+  Definition sem_bind : list text -> list val -> list (text * positive) -> sstate -> list (text * positive) * sstate :=
+    fix bind (ps : list text) (vs : list val) (acc : list (text * positive)) (st : sstate) :=
+      match ps with
+      | [] => (acc, st)
+      | p :: ps' =>
+          let '(cl, st') := new_cell st in
+          let '(v, vs') := match vs with v :: r => (v, r) | [] => (VNull, []) end in
+          bind ps' vs' ((p, cl) :: acc) (set_cell cl v st')
+      end.
+
+  Definition sem_call (f : nat) (fv : val) (vs : list val) (st : sstate) : res val :=
+    match fv with
+    | VFun id _ =>
+        match nth_error (st_funs st) (Z.to_nat id) with
+        | Some clo =>
+            if Nat.ltb (length (k_params clo)) (length vs) then RErr EArgumentError st
+            else
+              let '(scope, st1) := sem_bind (k_params clo) vs [] st in
+              match exec_block orc f (mkD [scope] (Some (k_genv clo))) (k_body clo) VNull st1 with
+              | ROk v st2 => ROk v st2
+              | RSig (SigReturn v) st2 => ROk v st2
+              | RSig _ st2 => RErr ESyntaxError st2
+              | RErr k st2 => RErr k st2
+              | RFault x st2 => RFault x st2
+              | RFuel => RFuel
+              end
+        | None => RFault FBadTag st
+        end
+    | _ => RErr ETypeError st
+    end.
+
+  Lemma ee_call : forall f c fn args st, is_builtin_callee fn = false ->
+    eval_expr orc (S f) c (ECall fn args) st =
+    rbind (sem_list f c args st) (fun vs st =>
+      rbind (eval_expr orc f c fn st) (fun fv st => sem_call f fv vs st)).
+  Proof.
+    intros f c fn args st Hb.
+    assert (match fn with EIdent x => assoc_text x builtin_names | _ => None end = None) as E.
+    { destruct fn; try reflexivity. cbn [is_builtin_callee] in Hb. unfold is_builtin_name in Hb.
+      destruct (assoc_text s builtin_names); [discriminate Hb|reflexivity]. }
+    cbn [eval_expr]. fold (sem_list f c). destruct (sem_list f c args st) as [vs st1| | | |]; try reflexivity.
+    cbn [rbind]. rewrite E. reflexivity.
+  Qed.
+
+  Lemma sl_nil : forall f c st, sem_list f c [] st = ROk [] st.
+  Proof. reflexivity. Qed.
+  Lemma sl_cons : forall f c x r st,
+    sem_list f c (x :: r) st =
+    rbind (eval_expr orc f c x st) (fun v st => rbind (sem_list f c r st) (fun vs st => ROk (v :: vs) st)).
+  Proof. reflexivity. Qed.
+
+  Lemma ee_function : forall f c name ps body st,
+    eval_expr orc (S f) c (EFunction name ps body) st =
+    let '(c1, st1, cell) :=
+      match name with
+      | [] => (c, st, None)
+      | _ => let '(cl, st') := new_cell st in (d_declare c name cl, st', Some cl)
+      end in
+    let g := match d_global c1 with Some g => g | None => d_local c1 end in
+    let id := zlength (st_funs st1) in
+    let st2 := mkSt (st_heap st1) (st_cells st1) (st_next st1)
+                    (st_funs st1 ++ [mkClo ps body g]) (st_out st1) in
+    let v := VFun id 0 in
+    ROk v (match cell with Some cl => set_cell cl v st2 | None => st2 end).
+  Proof. reflexivity. Qed.
+
+  Lemma eb_return : forall f c e r last st,
+    exec_block orc (S f) c (SReturn e :: r) last st =
+    rbind (eval_expr orc f c e st) (fun v st1 => RSig (SigReturn v) st1).
+  Proof. reflexivity. Qed.
+
+  Lemma eb_expr3 : forall f c e r last st,
+    exec_block orc (S f) c (SExpr e :: r) last st =
+    rbind (eval_expr orc f c e st) (fun v st1 =>
+      exec_block orc f (match e with
+                        | EFunction (ch :: name) _ _ => d_declare c (ch :: name) (Pos.pred (st_next st1))
+                        | _ => c
+                        end) r v st1).
+  Proof. reflexivity. Qed.
+End SemEq3.
+
+(** * Contexts along the compilation *)
+
+Lemma ctx_ok_push : forall st c E, ctx_ok st c E ->
+  ctx_ok (set_symbols st (enter_scope (c_symbols st))) (d_push c) E /\
+  cmax (set_symbols st (enter_scope (c_symbols st))) = cmax st.
+Proof.
+  intros st c E H. unfold ctx_ok in *. cbn [set_symbols c_symbols d_push d_local d_global concat app].
+  destruct (ce_mode E).
+  - destruct H as [H1 [H2 [H3 [k [outer [cur [H4 [H5 H6]]]]]]]]. split.
+    + split; [exact H1|]. split; [exact H2|]. split; [exact H3|]. exists k, (outer ++ [cur]), [].
+      rewrite H4, enter_ltab, flat_enter. auto.
+    + rewrite (cmax_ltab st _ _ _ _ _ H4).
+      apply (cmax_ltab _ [] SGlobal k (outer ++ [cur]) []). cbn [set_symbols c_symbols]. rewrite H4. apply enter_ltab.
+  - destruct H as [g [c0 [mids [k [outer [cur [H1 [H2 [H3 [H4 [H5 [H6 [H7 [H8 H9]]]]]]]]]]]]]]. split.
+    + exists g, c0, mids, k, (outer ++ [cur]), []. rewrite H5, enter_ltab, flat_enter.
+      repeat (split; [first [assumption|reflexivity]|]). exact H9.
+    + rewrite (cmax_ltab st _ _ _ _ _ H5).
+      apply (cmax_ltab _ (c0 :: mids) SLocal k (outer ++ [cur]) []). cbn [set_symbols c_symbols]. rewrite H5. apply enter_ltab.
+Qed.
+
+Lemma frame_set : forall E sst c v, In c (map snd (ce_ds E ++ ce_dl E)) -> frame E sst (set_cell c v sst).
+Proof.
+  intros E sst c v Hin. split; [reflexivity|]. split; [cbn [set_cell st_next]; lia|].
+  intros c' Hc Hn. cbn [set_cell st_cells]. apply PM.gso. intros ->. exact (Hn Hin).
+Qed.
+
+Lemma mentions_function : forall x n ps body, mentions x (EFunction n ps body) = mentions_b x body.
+Proof. reflexivity. Qed.
+Lemma mentions_prefix : forall x o r, mentions x (EPrefix o r) = mentions x r.
+Proof. reflexivity. Qed.
+Lemma mentions_ident : forall x y, mentions x (EIdent y) = text_eqb x y.
+Proof. reflexivity. Qed.
+
+Fixpoint mentions_es (x : text) (l : list expr) : bool :=
+  match l with [] => false | y :: r => mentions x y || mentions_es x r end.
+Lemma mentions_call : forall x f args, mentions x (ECall f args) = mentions x f || mentions_es x args.
+Proof.
+  intros x f args. cbn [mentions]. f_equal. induction args as [|a r IH]; [reflexivity|]. cbn [mentions_es]. rewrite <- IH. reflexivity.
+Qed.
+
+(** * Sem agrees with the intermediate evaluator *)
+
+Section SemSim.
+  Variable orc : oracle.
+  Variable Sall : fentry -> Prop.
+  Hypothesis Suniq : forall fe fe', Sall fe -> Sall fe' -> fe_ip fe = fe_ip fe' -> fe = fe'.
+  Hypothesis Sclosed : forall fe, Sall fe -> forall fe', occ_blk (fe_body fe) (fe_st fe) fe' -> Sall fe'.
+
+  Definition flags_ok (fa fn : bool) (E : cenv) : Prop :=
+    match ce_mode E with
+    | MTop => fn = false /\ (fa = true -> ce_L E = length (ce_ds E))
+    | MFun => fn = true /\ fa = true
+    end.
+
+  Definition top0 (fa : bool) (E : cenv) : bool := match ce_mode E with MTop => fa | MFun => false end.
+
+  (* no hole is ever looked up: the variables being initialised are not mentioned *)
+  Definition holes_gen (E : cenv) (P : text -> bool) : Prop :=
+    (forall h y c, In h (ce_gh E) -> nth_error (ce_ds E) h = Some (y, c) ->
+                   (ce_mode E = MFun -> (h < ce_nf E)%nat) -> P y = false) /\
+    (forall h y c, In h (ce_lh E) -> nth_error (ce_dl E) h = Some (y, c) -> P y = false).
+  Definition holes_e (E : cenv) (e : expr) : Prop := holes_gen E (fun y => mentions y e).
+  Definition holes_b (E : cenv) (l : list stmt) : Prop := holes_gen E (fun y => mentions_b y l).
+
+  Lemma holes_gen_sub : forall E (P Q : text -> bool), (forall y, P y = false -> Q y = false) ->
+    holes_gen E P -> holes_gen E Q.
+  Proof.
+    intros E P Q H [H1 H2]. split.
+    - intros h y c Hin Hn Hm. apply H. exact (H1 h y c Hin Hn Hm).
+    - intros h y c Hin Hn. apply H. exact (H2 h y c Hin Hn).
+  Qed.
+
+  (* the slots of the activation cover max_size of the function's context *)
+  Definition locb (E : cenv) (st' : cstate) : Prop :=
+    ce_mode E = MFun -> (cmax st' <= ce_N E)%nat.
+
+  Definition P_e (fuel : nat) : Prop := forall lp fa fn e c st st' E F sst y,
+    f3e lp fa fn e = true -> compile_expression e st = Ok st' -> ctx_ok st c E -> flags_ok fa fn E ->
+    Rel3 Sall E F sst y -> locb E st' -> holes_e E e -> (forall fe, occ_e e st fe -> Sall fe) ->
+    corr Sall E E F sst (eval_expr orc fuel c e sst) (yeval orc fuel st e y).
+
+  Definition P_l (fuel : nat) : Prop := forall lp fa fn l c st st' E F sst y last last',
+    f3b lp fa fn l = true -> compile_statements l st = Ok st' -> ctx_ok st c E -> flags_ok fa fn E ->
+    Rel3 Sall E F sst y -> locb E st' -> holes_b E l -> (forall fe, occ_l l st fe -> Sall fe) ->
+    vrel F last last' ->
+    exists E', env_ext E E' /\ (top0 fa E = false -> ce_L E' = ce_L E) /\
+      corr Sall E E' F sst (exec_block orc fuel c l last sst) (ystmts orc fuel st l last' y).
+
+  Definition P_w (fuel : nat) : Prop := forall fa fn iter cnd body c st2 st3 st5 E F sst y last last',
+    f3e false fa fn cnd = true -> f3b true fn fn body = true ->
+    compile_expression cnd st2 = Ok st3 -> c_block_value body (wh_st4 st3) = Ok st5 ->
+    ctx_ok st2 c E -> flags_ok fa fn E -> Rel3 Sall E F sst y -> locb E st5 ->
+    holes_e E cnd -> holes_b E body ->
+    (forall fe, occ_e cnd st2 fe -> Sall fe) -> (forall fe, occ_blk body (wh_st4 st3) fe -> Sall fe) ->
+    vrel F last last' ->
+    corr Sall E E F sst (eval_while orc fuel iter c cnd body last sst) (ywhile orc fuel st2 (wh_st4 st3) cnd body last' y).
+
+  Ltac bok H a Ha := apply bind_ok in H; destruct H as [a [Ha H]].
+
+  (* the value of a variable *)
+  Lemma var_rel : forall E F sst y st c x sy, ctx_ok st c E -> Rel3 Sall E F sst y ->
+    holes_e E (EIdent x) -> resolve (c_symbols st) x = Some sy ->
+    exists cell, d_lookup c x = Some cell /\ vrel F (get_cell cell sst) (y_get sy y) /\
+                 In cell (map snd (ce_ds E ++ ce_dl E)) /\
+                 match s_scope sy with
+                 | SLocal => ce_mode E = MFun /\ exists x', nth_error (ce_dl E) (s_index sy) = Some (x', cell)
+                 | SGlobal => exists x', nth_error (ce_ds E) (s_index sy) = Some (x', cell)
+                 end.
+  Proof.
+    intros E F sst y st c x sy Hc HR [Hg Hl] Hr. pose proof (lookup_rel st c E x Hc) as L. rewrite Hr in L.
+    destruct L as [x' [cell [L1 [L2 L3]]]]. exists cell. split; [exact L1|]. unfold y_get.
+    destruct (s_scope sy) eqn:Es.
+    - destruct L3 as [Lm Ln]. split; [|split; [|split; [exact Lm|exists x'; exact Ln]]].
+      + apply (r_lval _ _ _ _ _ HR _ x' cell Ln). intros Hin.
+        pose proof (Hl _ x' cell Hin Ln) as Hm. rewrite mentions_ident, L2 in Hm. discriminate Hm.
+      + rewrite map_app. apply in_or_app. right. apply in_map_iff. exists (x', cell). split; [reflexivity|exact (nth_error_In _ _ Ln)].
+    - destruct L3 as [Ln Lf]. split; [|split; [|exists x'; exact Ln]].
+      + apply (r_gval _ _ _ _ _ HR _ x' cell Ln). intros Hin.
+        pose proof (Hg _ x' cell Hin Ln Lf) as Hm. rewrite mentions_ident, L2 in Hm. discriminate Hm.
+      + rewrite map_app. apply in_or_app. left. apply in_map_iff. exists (x', cell). split; [reflexivity|exact (nth_error_In _ _ Ln)].
+  Qed.
+
+  (* storing into a variable that is not a hole *)
+  Lemma set_rel : forall E F sst y sy cell v v', Rel3 Sall E F sst y -> vrel F v v' ->
+    match s_scope sy with
+    | SLocal => (exists x', nth_error (ce_dl E) (s_index sy) = Some (x', cell)) /\ (s_index sy < ce_N E)%nat
+    | SGlobal => exists x', nth_error (ce_ds E) (s_index sy) = Some (x', cell)
+    end ->
+    Rel3 Sall E F (set_cell cell v sst) (y_set sy v' y).
+  Proof.
+    intros E F sst y sy cell v v' HR Hv H. unfold y_set. destruct (s_scope sy).
+    - destruct H as [[x' Hn] Hlt]. rewrite <- (r_N _ _ _ _ _ HR) in Hlt.
+      pose proof (Rel3_set_local Sall E F sst y _ x' cell v v' (ce_lh E) HR Hn Hv Hlt
+                    (fun j Hj => or_intror Hj) (fun h Hh => Hh)) as R.
+      unfold set_lh in R. rewrite cenv_eta in R. exact R.
+    - destruct H as [x' Hn].
+      pose proof (Rel3_set_global Sall E F sst y _ x' cell v v' (ce_gh E) HR Hn Hv
+                    (fun j Hj => or_intror Hj) (fun h Hh => Hh)) as R.
+      unfold set_gh in R. rewrite cenv_eta in R. exact R.
+  Qed.
+
+  Lemma corr_restrict : forall E E' F sst y r x, corr Sall E E' F sst r x -> env_ext E E' -> ce_L E' = ce_L E ->
+    Rel3 Sall E F sst y -> corr Sall E E F sst r x.
+  Proof.
+    intros E E' F sst y r x H Hext HL HR.
+    pose proof (r_L _ _ _ _ _ HR) as S1. pose proof (r_ghlt _ _ _ _ _ HR) as S2. pose proof (r_lhlt _ _ _ _ _ HR) as S3.
+    destruct r as [vs s'|[| |rv] s'|k s'|f s'|]; destruct x as [vy y'|y'|y'|vy y'|k'|f'| |]; cbn [corr] in *;
+      try exact I; try contradiction; try exact H;
+      try (destruct k; try exact I; try contradiction; exact H).
+    - destruct H as [X [V [R Fr]]]. exists X. split; [exact V|]. split; [|exact Fr].
+      exact (Rel3_restrict Sall E E' _ _ _ R Hext HL S1 S2 S3).
+    - destruct H as [X [R Fr]]. exists X. split; [|exact Fr]. exact (Rel3_restrict Sall E E' _ _ _ R Hext HL S1 S2 S3).
+    - destruct H as [X [R Fr]]. exists X. split; [|exact Fr]. exact (Rel3_restrict Sall E E' _ _ _ R Hext HL S1 S2 S3).
+    - destruct H as [X [V [R Fr]]]. exists X. split; [exact V|]. split; [|exact Fr].
+      exact (Rel3_restrict Sall E E' _ _ _ R Hext HL S1 S2 S3).
+  Qed.
+
+  Lemma flags_block : forall fa fn E, flags_ok fa fn E -> flags_ok fn fn E /\ top0 fn E = false.
+  Proof.
+    intros fa fn E H. unfold flags_ok, top0 in *. destruct (ce_mode E).
+    - destruct H as [-> _]. split; [split; [reflexivity|intros N; discriminate N]|reflexivity].
+    - destruct H as [-> _]. auto.
+  Qed.
+
+  (* a block in its own scope; stb is the compiler state after its statements *)
+  Lemma block_corr : forall f, P_l f -> forall lp fa fn b c st stb E F sst y,
+    f3b lp fn fn b = true -> flags_ok fa fn E ->
+    (b <> [] -> compile_statements b (set_symbols st (enter_scope (c_symbols st))) = Ok stb /\ locb E stb) ->
+    ctx_ok st c E -> Rel3 Sall E F sst y -> holes_b E b ->
+    (forall fe, occ_blk b st fe -> Sall fe) ->
+    corr Sall E E F sst (exec_block orc f (d_push c) b VNull sst) (yblock orc f st b y).
+  Proof.
+    intros f IHl lp fa fn b c st stb E F sst y HF Hfl Hcb Hc HR Hh Hocc. unfold yblock, yblock_g.
+    destruct b as [|s r].
+    - cbn [is_nil]. destruct f as [|f']; [apply corr_fuel|]. rewrite eb_nil, ys_nil. cbn [corr].
+      exists []. rewrite app_nil_r. split; [apply vrel_null|]. split; [exact HR|apply frame_refl].
+    - cbn [is_nil]. destruct (Hcb ltac:(discriminate)) as [Hcs Hloc].
+      destruct (flags_block fa fn E Hfl) as [Hfl' Ht0]. destruct (ctx_ok_push st c E Hc) as [Hc' _].
+      destruct (IHl lp fn fn (s :: r) (d_push c) _ stb E F sst y VNull VNull HF Hcs Hc' Hfl' HR Hloc Hh
+                  (fun fe H => Hocc fe (oc_blk s r st fe H)) (vrel_null F)) as [E' [Hext [HL Hcorr]]].
+      exact (corr_restrict E E' F sst y _ _ Hcorr Hext (HL Ht0) HR).
+  Qed.
+
+  (** ** Expressions *)
+
+  Lemma step_ident : forall f x c st st' E F sst y,
+    compile_expression (EIdent x) st = Ok st' -> ctx_ok st c E -> Rel3 Sall E F sst y -> holes_e E (EIdent x) ->
+    corr Sall E E F sst (eval_expr orc (S f) c (EIdent x) sst) (yeval orc (S f) st (EIdent x) y).
+  Proof.
+    intros f x c st st' E F sst y Hc Hctx HR Hh. rewrite ce_ident in Hc.
+    destruct (resolve (c_symbols st) x) as [sy|] eqn:Er; [|discriminate Hc].
+    destruct (var_rel E F sst y st c x sy Hctx HR Hh Er) as [cell [L1 [L2 _]]].
+    rewrite ee_ident, ye_ident, L1, Er. cbn [corr]. exists []. rewrite app_nil_r.
+    split; [exact L2|]. split; [exact HR|apply frame_refl].
+  Qed.
+
+  Lemma holes_assign : forall E x r, holes_e E (EAssign (EIdent x) r) -> holes_e E (EIdent x) /\ holes_e E r.
+  Proof.
+    intros E x r H. split; apply (holes_gen_sub E _ _) with (2 := H); intros y Hm; rewrite mentions_assign in Hm.
+    - exact (orb_false_l _ _ Hm).
+    - exact (orb_false_r' _ _ Hm).
+  Qed.
+
+  Lemma step_assign : forall f, P_e f -> forall lp fa fn x r c st st' E F sst y,
+    f3e lp fa fn (EAssign (EIdent x) r) = true -> compile_expression (EAssign (EIdent x) r) st = Ok st' ->
+    ctx_ok st c E -> flags_ok fa fn E -> Rel3 Sall E F sst y -> locb E st' -> holes_e E (EAssign (EIdent x) r) ->
+    (forall fe, occ_e (EAssign (EIdent x) r) st fe -> Sall fe) ->
+    corr Sall E E F sst (eval_expr orc (S f) c (EAssign (EIdent x) r) sst) (yeval orc (S f) st (EAssign (EIdent x) r) y).
+  Proof.
+    intros f IHe lp fa fn x r c st st' E F sst y HF Hc Hctx Hfl HR Hloc Hh Hocc.
+    rewrite f3e_assign in HF. rewrite ce_assign_ident in Hc.
+    destruct (resolve (c_symbols st) x) as [sy|] eqn:Er; [|discriminate Hc].
+    bok Hc st1 H1. bok Hc st2 H2. destruct (holes_assign E x r Hh) as [Hhx Hhr].
+    destruct (var_rel E F sst y st c x sy Hctx HR Hhx Er) as [cell [L1 [_ [Lin Lsl]]]].
+    destruct (ctx_ok_expr r false fa fn st st1 c E HF H1 Hctx) as [Hctx1 Hk1].
+    assert (cmax st' = cmax st1) as Hk'.
+    { unfold cmax. rewrite (proj1 (emit_sym_spec _ _ _ _ Hc)), (proj1 (emit_sym_spec _ _ _ _ H2)). reflexivity. }
+    rewrite ee_assign_ident, ye_assign, L1, Er.
+    apply corr_bind.
+    - apply (IHe false fa fn r c st st1 E F sst y HF H1 Hctx Hfl HR); [|exact Hhr|].
+      + intros Em. specialize (Hloc Em). lia.
+      + intros fe Ho. apply Hocc. apply oc_assign. exact Ho.
+    - intros vs sst1 vy y1 X V R1 Fr1. cbn [corr]. exists []. rewrite app_nil_r. split; [exact V|].
+      split; [|apply frame_set; exact Lin].
+      apply set_rel; [exact R1|exact V|]. destruct (s_scope sy) eqn:Es; [|exact Lsl].
+      destruct Lsl as [Em Ln]. split; [exact Ln|].
+      destruct (ctx_ok_wfshape st c E Hctx) as [pre [sc [k [outer [cur [[W1 [W2 W3]] _]]]]]].
+      rewrite W1 in Er. pose proof (resolve_local_bound _ _ _ _ _ _ _ W2 W3 Er Es) as Hb.
+      rewrite <- (cmax_ltab st _ _ _ _ _ W1) in Hb. specialize (Hloc Em). lia.
+  Qed.
+
+  Lemma step_prefix : forall f, P_e f -> forall lp fa fn op r c st st' E F sst y,
+    f3e lp fa fn (EPrefix op r) = true -> compile_expression (EPrefix op r) st = Ok st' ->
+    ctx_ok st c E -> flags_ok fa fn E -> Rel3 Sall E F sst y -> locb E st' -> holes_e E (EPrefix op r) ->
+    (forall fe, occ_e (EPrefix op r) st fe -> Sall fe) ->
+    corr Sall E E F sst (eval_expr orc (S f) c (EPrefix op r) sst) (yeval orc (S f) st (EPrefix op r) y).
+  Proof.
+    intros f IHe lp fa fn op r c st st' E F sst y HF Hc Hctx Hfl HR Hloc Hh Hocc.
+    rewrite f3e_prefix in HF. apply andb_prop in HF. destruct HF as [Hop HF].
+    rewrite ce_prefix in Hc. bok Hc st1 H1.
+    assert (cmax st' = cmax st1) as Hk' by (destruct op; try discriminate Hop; inversion Hc; reflexivity).
+    rewrite ee_prefix, ye_prefix. apply corr_bind.
+    - apply (IHe false fa fn r c st st1 E F sst y HF H1 Hctx Hfl HR); [| |].
+      + intros Em. specialize (Hloc Em). lia.
+      + apply (holes_gen_sub E _ _) with (2 := Hh). intros y0 Hm. rewrite mentions_prefix in Hm. exact Hm.
+      + intros fe Ho. apply Hocc. apply oc_prefix. exact Ho.
+    - intros vs sst1 vy y1 X V R1 Fr1.
+      destruct op; try discriminate Hop.
+      + destruct (negate_agree (F ++ X) (st_heap sst1) vs vy V) as [E1 P1].
+        rewrite <- (r_heap _ _ _ _ _ R1), E1. apply lift_same; [exact R1|exact P1].
+      + destruct (lognot_agree (F ++ X) vs vy V) as [E1 P1]. rewrite E1. apply lift_plain_same; [exact R1|exact P1].
+      + destruct (negate_agree (F ++ X) (st_heap sst1) vs vy V) as [E1 P1].
+        rewrite <- (r_heap _ _ _ _ _ R1), E1. apply lift_same; [exact R1|exact P1].
+  Qed.
+
+  Lemma holes_infix : forall E l o r, holes_e E (EInfix l o r) -> holes_e E l /\ holes_e E r.
+  Proof.
+    intros E l o r H. split; apply (holes_gen_sub E _ _) with (2 := H); intros y Hm; rewrite mentions_infix in Hm.
+    - exact (orb_false_l _ _ Hm).
+    - exact (orb_false_r' _ _ Hm).
+  Qed.
+
+  Lemma generic_corr : forall f, P_e f -> forall fa fn l op r c st0 st' E F sst y,
+    is_binop op = true -> f3e false fa fn l = true -> f3e false fa fn r = true ->
+    generic_infix l op r st0 = Ok st' -> ctx_ok st0 c E -> flags_ok fa fn E -> Rel3 Sall E F sst y ->
+    locb E st' -> holes_e E l -> holes_e E r ->
+    (forall fe, occ_e l st0 fe -> Sall fe) ->
+    (forall st1 fe, compile_expression l st0 = Ok st1 -> occ_e r st1 fe -> Sall fe) ->
+    corr Sall E E F sst
+      (rbind (eval_expr orc f c l sst) (fun a st => rbind (eval_expr orc f c r st) (fun b st =>
+         match Sem.method_of op with
+         | Some m => lift_heap st (binop orc m (st_heap st) a b)
+         | None => RErr ETypeError st
+         end)))
+      (ygeneric orc f l op r st0 y).
+  Proof.
+    intros f IHe fa fn l op r c st0 st' E F sst y Hop Hl Hr Hc Hctx Hfl HR Hloc Hhl Hhr Hol Hor.
+    unfold generic_infix in Hc. bok Hc st1 H1. bok Hc st2 H2.
+    destruct (assoc operator_eqb op compile_operator_table) as [opc|] eqn:Eopc; [|discriminate Hc].
+    inversion Hc; subst st'; clear Hc.
+    destruct (binop_chain op opc Hop Eopc) as [mth [_ Hmeth]].
+    destruct (ctx_ok_expr l false fa fn st0 st1 c E Hl H1 Hctx) as [Hctx1 Hk1].
+    destruct (ctx_ok_expr r false fa fn st1 st2 c E Hr H2 Hctx1) as [Hctx2 Hk2].
+    assert (cmax (emit_opcode opc st2) = cmax st2) as Hk' by reflexivity.
+    unfold ygeneric. rewrite H1. apply corr_bind.
+    - apply (IHe false fa fn l c st0 st1 E F sst y Hl H1 Hctx Hfl HR); [|exact Hhl|exact Hol].
+      intros Em. specialize (Hloc Em). lia.
+    - intros a sst1 a' y1 X1 Va R1 Fr1. apply corr_bind.
+      + apply (IHe false fa fn r c st1 st2 E (F ++ X1) sst1 y1 Hr H2 Hctx1 Hfl R1); [|exact Hhr|].
+        * intros Em. specialize (Hloc Em). lia.
+        * intros fe Ho. exact (Hor st1 fe H1 Ho).
+      + intros b sst2 b' y2 X2 Vb R2 Fr2. rewrite Hmeth. unfold ybinop.
+        destruct (is_fun a' && is_fun b' && is_eqop op) eqn:Efe; [apply corr_excl|]. rewrite Hmeth.
+        destruct (binop_agree orc ((F ++ X1) ++ X2) op mth (st_heap sst2) a b a' b' Hmeth (vrel_mono _ _ _ _ Va) Vb Efe) as [E1 P1].
+        rewrite <- (r_heap _ _ _ _ _ R2), E1. apply lift_same; [exact R2|exact P1].
+  Qed.
+
+  Lemma step_infix : forall f, P_e f -> forall lp fa fn l op r c st st' E F sst y,
+    f3e lp fa fn (EInfix l op r) = true -> compile_expression (EInfix l op r) st = Ok st' ->
+    ctx_ok st c E -> flags_ok fa fn E -> Rel3 Sall E F sst y -> locb E st' -> holes_e E (EInfix l op r) ->
+    (forall fe, occ_e (EInfix l op r) st fe -> Sall fe) ->
+    corr Sall E E F sst (eval_expr orc (S f) c (EInfix l op r) sst) (yeval orc (S f) st (EInfix l op r) y).
+  Proof.
+    intros f IHe lp fa fn l op r c st st' E F sst y HF Hc Hctx Hfl HR Hloc Hh Hocc.
+    rewrite f3e_infix in HF. apply andb_prop in HF. destruct HF as [HF Hr]. apply andb_prop in HF.
+    destruct HF as [Hop Hl]. destruct (holes_infix E l op r Hh) as [Hhl Hhr].
+    rewrite ce_infix in Hc. rewrite ee_infix, ye_infix.
+    assert (forall st0, infix_st0 l op r st = st0 -> c_symbols st0 = c_symbols st ->
+              generic_infix l op r st0 = Ok st' ->
+              corr Sall E E F sst
+                (rbind (eval_expr orc f c l sst) (fun a st => rbind (eval_expr orc f c r st) (fun b st =>
+                   match Sem.method_of op with
+                   | Some m => lift_heap st (binop orc m (st_heap st) a b)
+                   | None => RErr ETypeError st
+                   end)))
+                (ygeneric orc f l op r st0 y)) as Hgen.
+    { intros st0 E0 Hs0 Hg. destruct (ctx_ok_syms st st0 c E Hs0 Hctx) as [Hctx0 _].
+      apply (generic_corr f IHe fa fn l op r c st0 st' E F sst y Hop Hl Hr Hg Hctx0 Hfl HR Hloc Hhl Hhr).
+      - intros fe Ho. apply Hocc. apply oc_infix_l. rewrite E0. exact Ho.
+      - intros st1 fe H1 Ho. apply Hocc. apply (oc_infix_r l op r st st1 fe); [rewrite E0; exact H1|exact Ho]. }
+    destruct (fused_candidate l r op) as [[[name v] op']|] eqn:Ef.
+    - destruct (compile_const_var_infix name v op' st) as [st0 done] eqn:Ec.
+      assert (infix_st0 l op r st = st0) as E0 by (unfold infix_st0; rewrite Ef, Ec; reflexivity).
+      destruct (const_var_infix3 _ _ _ _ _ _ Ec) as [Hs0 [_ [_ Hcases]]].
+      destruct done.
+      + (* the fused instruction *)
+        destruct Hcases as [[_ [sy [opc [idx [Er [Es [Eo _]]]]]]]|[[N _]|[N _]]]; try discriminate N.
+        destruct (fused_method _ _ Eo) as [mf Hmf].
+        unfold yfused. rewrite Er, Eo, Hmf.
+        assert (exists opc0, assoc operator_eqb op compile_operator_table = Some opc0) as [opc0 Eopc0]
+          by (destruct op; try discriminate Hop; eexists; reflexivity).
+        destruct (binop_chain op opc0 Hop Eopc0) as [m0 [_ Hm0]].
+        destruct f as [|f']; [apply corr_fuel|].
+        assert (holes_e E (EIdent name)) as Hhn.
+        { destruct (PoolProofs.fused_selection_sound _ _ _ _ _ _ Ef) as [(-> & _ & _)|(_ & -> & _)]; assumption. }
+        destruct (var_rel E F sst y st c name sy Hctx HR Hhn Er) as [cell [L1 [L2 _]]].
+        assert (lit_ok v = true) as Hlit.
+        { destruct (PoolProofs.fused_selection_sound _ _ _ _ _ _ Ef) as [(_ & -> & _)|(-> & _ & _)].
+          - exact Hr.
+          - exact Hl. }
+        pose proof (fused_agree orc F l r op name v op' (st_heap sst) (get_cell cell sst) (y_get sy y) m0 opc
+                      Ef Hlit Hm0 Eo mf Hmf L2) as Hag.
+        destruct (PoolProofs.fused_selection_sound _ _ _ _ _ _ Ef) as [(-> & -> & _)|(-> & -> & _)].
+        * rewrite ee_ident, L1. cbn [rbind]. rewrite ee_int. cbn [rbind]. rewrite Hm0.
+          destruct Hag as [E1 P1]. rewrite <- (r_heap _ _ _ _ _ HR), E1. apply lift_same; [exact HR|exact P1].
+        * rewrite ee_int. cbn [rbind]. rewrite ee_ident, L1. cbn [rbind]. rewrite Hm0.
+          destruct Hag as [E1 P1]. rewrite <- (r_heap _ _ _ _ _ HR), E1. apply lift_same; [exact HR|exact P1].
+      + exact (Hgen st0 E0 Hs0 Hc).
+    - assert (infix_st0 l op r st = st) as E0 by (unfold infix_st0; rewrite Ef; reflexivity).
+      exact (Hgen st E0 eq_refl Hc).
+  Qed.
+
+  (* a block compiled in value position: the table before and after, and the state after its statements *)
+  Lemma bv_ctx : forall b lp fa fn st st' c E, f3b lp fa fn b = true -> c_block_value b st = Ok st' ->
+    ctx_ok st c E ->
+    ctx_ok st' c E /\ (cmax st <= cmax st')%nat /\
+    (b <> [] -> exists stb, compile_statements b (set_symbols st (enter_scope (c_symbols st))) = Ok stb /\
+                            cmax stb = cmax st').
+  Proof.
+    intros b lp fa fn st st' c E HF Hc Hctx.
+    destruct (ctx_ok_wfshape st c E Hctx) as [pre [sc [k [outer [cur [W _]]]]]].
+    destruct (shape_bv b lp fa fn st st' pre sc k outer cur HF Hc W) as [k' [W' Hk]].
+    destruct (ctx_ok_shape st st' c E (wfshape_same _ _ _ _ _ _ _ _ W W' Hk) Hctx) as [Hctx' Hk'].
+    split; [exact Hctx'|]. split; [exact Hk'|]. intros Hne.
+    destruct (bv_inv b st st' Hc) as [->|[stb Hb]]; [contradiction|]. exists stb. split; [exact Hb|].
+    destruct W as [Ws [Wp Ww]].
+    assert (wfshape (set_symbols st (enter_scope (c_symbols st))) pre sc k (outer ++ [cur]) []) as W0.
+    { split; [cbn [set_symbols c_symbols]; rewrite Ws; apply enter_ltab|]. split; [exact Wp|]. rewrite flat_enter. exact Ww. }
+    destruct (shape_stmts b lp fa fn _ stb pre sc k (outer ++ [cur]) [] HF Hb W0) as [kb [[Wb _] _]].
+    rewrite (cmax_ltab stb _ _ _ _ _ Wb). destruct W' as [Ws' _]. rewrite (cmax_ltab st' _ _ _ _ _ Ws').
+    (* st' has the table of stb with the scope left *)
+    unfold c_block_value, c_block_statement in Hc. destruct b as [|s0 r]; [contradiction|]. cbn [is_nil] in Hc.
+    rewrite Hb in Hc. cbn [bind] in Hc.
+    assert (c_symbols st' = leave_scope (c_symbols stb)) as El.
+    { destruct (last_instruction_is OPop (set_symbols stb (leave_scope (c_symbols stb)))); inversion Hc; reflexivity. }
+    rewrite Wb in El. cbn [app] in El. rewrite leave_ltab in El. rewrite Ws' in El.
+    apply ltab_inj in El. destruct El as [_ [_ [E1 _]]]. symmetry. exact E1.
+  Qed.
+
+  Lemma holes_if : forall E c t alt, holes_e E (EIf c t alt) ->
+    holes_e E c /\ holes_b E t /\ match alt with Some b => holes_b E b | None => True end.
+  Proof.
+    intros E c t alt H. split; [|split].
+    - apply (holes_gen_sub E _ _) with (2 := H). intros y Hm. rewrite mentions_if in Hm.
+      exact (orb_false_l _ _ (orb_false_l _ _ Hm)).
+    - apply (holes_gen_sub E _ _) with (2 := H). intros y Hm. rewrite mentions_if in Hm.
+      exact (orb_false_r' _ _ (orb_false_l _ _ Hm)).
+    - destruct alt as [b|]; [|exact I]. apply (holes_gen_sub E _ _) with (2 := H). intros y Hm. rewrite mentions_if in Hm.
+      exact (orb_false_r' _ _ Hm).
+  Qed.
+
+  Lemma vrel_bool : forall F vs vy, vrel F vs vy ->
+    (exists b, vs = VBool b /\ vy = VBool b) \/
+    ((forall b, vs <> VBool b) /\ (forall b, vy <> VBool b)).
+  Proof.
+    intros F vs vy H. destruct (vrel_cases F vs vy H) as [[Hs ->]|[id [n [ip [k [-> ->]]]]]].
+    - destruct vs; try (right; split; intros b0; discriminate). left. exists b. auto.
+    - right. split; intros b0; discriminate.
+  Qed.
+
+  Lemma step_if : forall f, P_e f -> P_l f -> forall lp fa fn cnd t alt c st st' E F sst y,
+    f3e lp fa fn (EIf cnd t alt) = true -> compile_expression (EIf cnd t alt) st = Ok st' ->
+    ctx_ok st c E -> flags_ok fa fn E -> Rel3 Sall E F sst y -> locb E st' -> holes_e E (EIf cnd t alt) ->
+    (forall fe, occ_e (EIf cnd t alt) st fe -> Sall fe) ->
+    corr Sall E E F sst (eval_expr orc (S f) c (EIf cnd t alt) sst) (yeval orc (S f) st (EIf cnd t alt) y).
+  Proof.
+    intros f IHe IHl lp fa fn cnd t alt c st st' E F sst y HF Hc Hctx Hfl HR Hloc Hh Hocc.
+    rewrite f3e_if in HF. apply andb_prop in HF. destruct HF as [HF Hfa]. apply andb_prop in HF. destruct HF as [Hfc Hft].
+    destruct (holes_if E cnd t alt Hh) as [Hhc [Hht Hha]].
+    rewrite ce_if in Hc. cbv zeta in Hc.
+    bok Hc st1 H1. bok Hc st3 H3. bok Hc t1 Ht1. bok Hc st5 H5. bok Hc st6 H6. bok Hc t2 Ht2.
+    change (emit_u16 JUMP_PLACEHOLDER (emit_opcode OJumpIfFalse st1)) with (if_st2 st1) in *.
+    destruct (operand16_cl _ _ Ht1) as [-> _].
+    assert (if_st5 st1 t = Ok st5) as Hif5 by (unfold if_st5; rewrite H3; cbn [bind]; exact H5).
+    destruct (ctx_ok_expr cnd false fa fn st st1 c E Hfc H1 Hctx) as [Hctx1 Hk1].
+    destruct (ctx_ok_syms st1 (if_st2 st1) c E eq_refl Hctx1) as [Hctx2 Hk2].
+    destruct (bv_ctx t lp fn fn (if_st2 st1) st3 c E Hft H3 Hctx2) as [Hctx3 [Hk3 Hb3]].
+    assert (c_symbols st5 = c_symbols st3) as Hs5.
+    { exact (proj1 (change_jump_spec _ _ _ _ (code_len_nonneg st1) H5)). }
+    destruct (ctx_ok_syms st3 st5 c E Hs5 Hctx3) as [Hctx5 Hk5].
+    assert (cmax st' = cmax st6) as Hk'.
+    { unfold cmax. rewrite (proj1 (change_jump_spec _ _ _ _ (code_len_nonneg st3) Hc)). reflexivity. }
+    assert (cmax st5 <= cmax st6)%nat as Hk6.
+    { destruct alt as [bl|]; [exact (proj1 (proj2 (bv_ctx bl lp fn fn st5 st6 c E Hfa H6 Hctx5)))|].
+      inversion H6; subst st6. unfold cmax. cbn [emit_opcode c_symbols]. lia. }
+    rewrite ee_if, ye_if, H1. apply corr_bind.
+    - apply (IHe false fa fn cnd c st st1 E F sst y Hfc H1 Hctx Hfl HR); [|exact Hhc|].
+      + intros Em. specialize (Hloc Em). lia.
+      + intros fe Ho. apply Hocc. apply oc_if_c. exact Ho.
+    - intros b sst1 b' y1 X V R1 Fr1.
+      destruct (vrel_bool (F ++ X) b b' V) as [[bb [-> ->]]|[N1 N2]].
+      2:{ assert (match b with
+                  | VBool true => exec_block orc f (d_push c) t VNull sst1
+                  | VBool false => match alt with Some bl => exec_block orc f (d_push c) bl VNull sst1 | None => ROk VNull sst1 end
+                  | _ => RErr ETypeError sst1
+                  end = RErr ETypeError sst1) as -> by (destruct b as [|[|]| | | | |]; try reflexivity; exfalso; eapply N1; reflexivity).
+          assert (match b' with
+                  | VBool true => yblock orc f (if_st2 st1) t y1
+                  | VBool false => match alt with
+                                   | Some bl => match if_st5 st1 t with Ok st0 => yblock orc f st0 bl y1 | _ => YFault FUnwrap end
+                                   | None => YOk VNull y1
+                                   end
+                  | _ => YErr ETypeError
+                  end = YErr ETypeError) as -> by (destruct b' as [|[|]| | | | |]; try reflexivity; exfalso; eapply N2; reflexivity).
+          apply corr_err. }
+      destruct bb.
+      + (* the consequence *)
+        destruct t as [|s0 r0].
+        * apply (block_corr f IHl lp fa fn [] c (if_st2 st1) st3 E (F ++ X) sst1 y1 Hft Hfl); try assumption.
+          -- intros N. contradiction.
+          -- intros fe Ho. inversion Ho.
+        * destruct (Hb3 ltac:(discriminate)) as [stb [Hstb Hkb]].
+          apply (block_corr f IHl lp fa fn (s0 :: r0) c (if_st2 st1) stb E (F ++ X) sst1 y1 Hft Hfl); try assumption.
+          -- intros _. split; [exact Hstb|]. intros Em. specialize (Hloc Em). lia.
+          -- intros fe Ho. apply Hocc. exact (oc_if_t cnd (s0 :: r0) alt st st1 fe H1 Ho).
+      + (* the alternative *)
+        destruct alt as [bl|].
+        * rewrite Hif5. destruct (bv_ctx bl lp fn fn st5 st6 c E Hfa H6 Hctx5) as [_ [_ Hb6]].
+          destruct bl as [|s0 r0].
+          -- apply (block_corr f IHl lp fa fn [] c st5 st6 E (F ++ X) sst1 y1 Hfa Hfl); try assumption.
+             ++ intros N. contradiction.
+             ++ intros fe Ho. inversion Ho.
+          -- destruct (Hb6 ltac:(discriminate)) as [stb [Hstb Hkb]].
+             apply (block_corr f IHl lp fa fn (s0 :: r0) c st5 stb E (F ++ X) sst1 y1 Hfa Hfl); try assumption.
+             ++ intros _. split; [exact Hstb|]. intros Em. specialize (Hloc Em). lia.
+             ++ intros fe Ho. apply Hocc. exact (oc_if_a cnd t (s0 :: r0) st st1 st5 fe H1 Hif5 Ho).
+        * cbn [corr]. exists []. rewrite app_nil_r. split; [apply vrel_null|]. split; [exact R1|apply frame_refl].
+  Qed.
+
+  (** ** zolang *)
+
+  Lemma change_jump_syms : forall idx v st st', change_jump_operand_at idx v st = Ok st' -> c_symbols st' = c_symbols st.
+  Proof.
+    intros idx v st st' H. unfold change_jump_operand_at in H.
+    destruct (nth_error (c_code st) (Z.to_nat idx)) as [b|]; [|discriminate H].
+    destruct ((b =? byte_of_opcode OJump) || (b =? byte_of_opcode OJumpIfFalse)); [|discriminate H].
+    inversion H; reflexivity.
+  Qed.
+
+  Lemma patch_breaks_syms : forall bs st st', patch_breaks bs st = Ok st' -> c_symbols st' = c_symbols st.
+  Proof.
+    intros bs. unfold patch_breaks.
+    change (fun acc ip => do s <- acc; do tg <- operand 16 (code_len s); change_jump_operand_at ip tg s) with patch_step.
+    induction bs as [|ip bs IH]; intros st st' H; cbn [fold_left] in H; [inversion H; reflexivity|].
+    destruct (patch_step (Ok st) ip) as [s1| | |] eqn:E1;
+      try (rewrite patch_fold_stuck in H by (intros s; discriminate); discriminate H).
+    unfold patch_step in E1. cbn [bind] in E1. apply bind_ok in E1. destruct E1 as [tg [_ E1]].
+    rewrite (IH s1 st' H). exact (change_jump_syms _ _ _ _ E1).
+  Qed.
+
+  Lemma holes_while : forall E c b, holes_e E (EWhile c b) -> holes_e E c /\ holes_b E b.
+  Proof.
+    intros E c b H. split; apply (holes_gen_sub E _ _) with (2 := H); intros y Hm; rewrite mentions_while in Hm.
+    - exact (orb_false_l _ _ Hm).
+    - exact (orb_false_r' _ _ Hm).
+  Qed.
+
+  Lemma step_w : forall f, P_e f -> P_l f -> P_w f -> P_w (S f).
+  Proof.
+    intros f IHe IHl IHw fa fn iter cnd body c st2 st3 st5 E F sst y last last'
+           Hfc Hfb H3 H5 Hctx Hfl HR Hloc Hhc Hhb Hoc Hob Vl.
+    destruct (ctx_ok_expr cnd false fa fn st2 st3 c E Hfc H3 Hctx) as [Hctx3 Hk3].
+    destruct (ctx_ok_syms st3 (wh_st4 st3) c E eq_refl Hctx3) as [Hctx4 Hk4].
+    destruct (bv_ctx body true fn fn (wh_st4 st3) st5 c E Hfb H5 Hctx4) as [_ [Hk5 Hb5]].
+    rewrite ew_step, yw_step. apply corr_bind.
+    - apply (IHe false fa fn cnd c st2 st3 E F sst y Hfc H3 Hctx Hfl HR); [|exact Hhc|exact Hoc].
+      intros Em. specialize (Hloc Em). lia.
+    - intros b sst1 b' y1 X V R1 Fr1.
+      destruct (vrel_bool (F ++ X) b b' V) as [[bb [-> ->]]|[N1 N2]].
+      2:{ assert (forall A (x1 x2 x3 : A), match b with VBool true => x1 | VBool false => x2 | _ => x3 end = x3) as E1
+            by (intros; destruct b as [|[|]| | | | |]; try reflexivity; exfalso; eapply N1; reflexivity).
+          assert (forall A (x1 x2 x3 : A), match b' with VBool true => x1 | VBool false => x2 | _ => x3 end = x3) as E2
+            by (intros; destruct b' as [|[|]| | | | |]; try reflexivity; exfalso; eapply N2; reflexivity).
+          rewrite E1, E2. apply corr_err. }
+      destruct bb.
+      + assert (corr Sall E E (F ++ X) sst1 (exec_block orc f (d_push c) body VNull sst1) (yblock orc f (wh_st4 st3) body y1)) as Hb.
+        { destruct body as [|s0 r0].
+          - apply (block_corr f IHl true fa fn [] c (wh_st4 st3) st5 E (F ++ X) sst1 y1 Hfb Hfl); try assumption.
+            + intros N. contradiction.
+          - destruct (Hb5 ltac:(discriminate)) as [stb [Hstb Hkb]].
+            apply (block_corr f IHl true fa fn (s0 :: r0) c (wh_st4 st3) stb E (F ++ X) sst1 y1 Hfb Hfl); try assumption.
+            intros _. split; [exact Hstb|]. intros Em. specialize (Hloc Em). lia. }
+        destruct (exec_block orc f (d_push c) body VNull sst1) as [v s2|[| |rv] s2|k s2|x0 s2|];
+          destruct (yblock orc f (wh_st4 st3) body y1) as [v' y2|y2|y2|v' y2|k'|x'| |]; cbn [corr] in Hb |- *;
+          try contradiction; try exact I; try exact Hb;
+          try (destruct k; try contradiction; try exact I; exact Hb).
+        * (* another iteration *)
+          destruct Hb as [X2 [V2 [R2 Fr2]]]. apply (corr_shift Sall E E (F ++ X) X2 sst1 s2 _ _ Fr2).
+          apply (IHw fa fn iter cnd body c st2 st3 st5 E ((F ++ X) ++ X2) s2 y2 v v' Hfc Hfb H3 H5 Hctx Hfl R2 Hloc Hhc Hhb Hoc Hob V2).
+        * apply corr_excl.
+        * (* stop *)
+          destruct Hb as [X2 [R2 Fr2]]. exists X2. split; [apply vrel_null|]. split; [exact R2|exact Fr2].
+        * (* volgende *)
+          destruct Hb as [X2 [R2 Fr2]]. apply (corr_shift Sall E E (F ++ X) X2 sst1 s2 _ _ Fr2).
+          apply (IHw fa fn iter cnd body c st2 st3 st5 E ((F ++ X) ++ X2) s2 y2 VNull VNull Hfc Hfb H3 H5 Hctx Hfl R2 Hloc Hhc Hhb Hoc Hob
+                     (vrel_null _)).
+        * apply corr_excl.
+      + cbn [corr]. exists []. rewrite app_nil_r. split; [apply vrel_mono; exact Vl|]. split; [exact R1|apply frame_refl].
+  Qed.
+
+  Lemma step_while : forall f, P_w f -> forall lp fa fn cnd body c st st' E F sst y,
+    f3e lp fa fn (EWhile cnd body) = true -> compile_expression (EWhile cnd body) st = Ok st' ->
+    ctx_ok st c E -> flags_ok fa fn E -> Rel3 Sall E F sst y -> locb E st' -> holes_e E (EWhile cnd body) ->
+    (forall fe, occ_e (EWhile cnd body) st fe -> Sall fe) ->
+    corr Sall E E F sst (eval_expr orc (S f) c (EWhile cnd body) sst) (yeval orc (S f) st (EWhile cnd body) y).
+  Proof.
+    intros f IHw lp fa fn cnd body c st st' E F sst y HF Hc Hctx Hfl HR Hloc Hh Hocc.
+    rewrite f3e_while in HF. apply andb_prop in HF. destruct HF as [Hfc Hfb].
+    destruct (holes_while E cnd body Hh) as [Hhc Hhb].
+    rewrite ce_while in Hc. cbv zeta in Hc.
+    change (set_loops (emit_opcode ONull st) (c_loops (emit_opcode ONull st) ++ [mkLoop (code_len (emit_opcode ONull st)) []]))
+      with (wh_st2 st) in Hc.
+    bok Hc st3 H3.
+    change (emit_opcode OPop (emit_u16 JUMP_PLACEHOLDER (emit_opcode OJumpIfFalse st3))) with (wh_st4 st3) in Hc.
+    bok Hc st5 H5. bok Hc back Hb. bok Hc target Ht. bok Hc st8 H8.
+    destruct (rev (c_loops st8)) as [|ctx rest]; [discriminate Hc|].
+    assert (cmax st' = cmax st5) as Hk'.
+    { unfold cmax. rewrite (patch_breaks_syms _ _ _ Hc). cbn [set_loops c_symbols].
+      rewrite (change_jump_syms _ _ _ _ H8). reflexivity. }
+    destruct (ctx_ok_syms st (wh_st2 st) c E eq_refl Hctx) as [Hctx2 _].
+    rewrite ee_while, ye_while, H3.
+    apply (IHw fa fn f cnd body c (wh_st2 st) st3 st5 E F sst y VNull VNull Hfc Hfb H3 H5 Hctx2 Hfl HR); try assumption.
+    - intros Em. specialize (Hloc Em). lia.
+    - intros fe Ho. apply Hocc. apply oc_while_c. exact Ho.
+    - intros fe Ho. apply Hocc. exact (oc_while_b cnd body st st3 fe H3 Ho).
+    - apply vrel_null.
+  Qed.
+
+  (** ** Function literals *)
+
+  Lemma fun_st3_syms : forall ps st1 pre sc k outer cur, c_symbols st1 = ltab pre sc k outer cur ->
+    c_symbols (fun_st3 ps st1) = ltab (ltab pre sc k outer cur) SLocal (length ps) [] ps.
+  Proof.
+    intros ps st1 pre sc k outer cur Hs. unfold fun_st3. cbn [set_loops set_symbols c_symbols emit_u16 emit_opcode].
+    rewrite Hs, new_context_ltab, defines_ltab, Nat.add_0_r. reflexivity.
+  Qed.
+
+  Lemma cmax_leave_context : forall st, Z.of_nat (snd (leave_context (c_symbols st))) = Z.of_nat (cmax st).
+  Proof. reflexivity. Qed.
+
+  (* the closure of Sem and the table entry of a literal written where c1 / st1 describe the declarations *)
+  Lemma fun_clo : forall E F sst y fa fn c1 st1 ps body st4, ctx_ok st1 c1 E -> flags_ok fa fn E -> fa = true ->
+    Rel3 Sall E F sst y -> c_block_statement body (fun_st3 ps st1) = Ok st4 -> f3b false true true body = true ->
+    holes_gen E (fun y => mentions_b y body) ->
+    clo_rel (ce_ds E) (ce_L E) (ce_gh E)
+            (mkClo ps body (match d_global c1 with Some g => g | None => d_local c1 end))
+            (mkFE (code_len (fun_st3 ps st1)) (Z.of_nat (snd (leave_context (c_symbols st4)))) ps body (fun_st3 ps st1)).
+  Proof.
+    intros E F sst y fa fn c1 st1 ps body st4 Hctx Hfl Hfa HR H4 HFb [Hhg _].
+    split; [reflexivity|]. split; [reflexivity|]. split; [exact HFb|].
+    cbn [fe_st fe_ps fe_body fe_n k_genv]. unfold ctx_ok in Hctx. unfold flags_ok in Hfl.
+    destruct (ce_mode E) eqn:Em.
+    - destruct Hctx as [H1 [H2 [H3 [k [outer [cur [H5 [H6 H7]]]]]]]]. destruct Hfl as [_ HL]. specialize (HL Hfa).
+      exists (length (ce_ds E)), (mkContext SGlobal k (outer ++ [cur])), [], st4.
+      rewrite H1, firstn_all. split; [lia|]. split; [exact H2|].
+      split; [exact (fun_st3_syms ps st1 _ _ _ _ _ H5)|].
+      split; [exact (pre_ok_new [] SGlobal k outer cur (conj eq_refl (Forall_nil _)) H7)|].
+      split; [unfold ScopeSpec.flat; cbn [c_syms]; rewrite concat_flat; exact H6|].
+      split; [exact H4|]. split; [apply cmax_leave_context|].
+      intros h y0 c0 Hin _ Hn. apply (Hhg h y0 c0 Hin Hn). intros N; discriminate N.
+    - destruct Hctx as [g [c0 [mids [k [outer [cur [H1 [H2 [H3 [H4' [H5 [H6 [H7 [H8 H9]]]]]]]]]]]]]].
+      exists (ce_nf E), c0, (mids ++ [mkContext SLocal k (outer ++ [cur])]), st4.
+      rewrite H1. split; [exact H4'|]. split; [exact H3|].
+      split; [exact (fun_st3_syms ps st1 _ _ _ _ _ H5)|].
+      split; [exact (pre_ok_new (c0 :: mids) SLocal k outer cur H6 H9)|].
+      split; [exact H8|]. split; [exact H4|]. split; [apply cmax_leave_context|].
+      intros h y0 c' Hin Hlt Hn. apply (Hhg h y0 c' Hin Hn). intros _. exact Hlt.
+  Qed.
+
+  Lemma function_parts : forall name ps body st st', compile_expression (EFunction name ps body) st = Ok st' ->
+    exists st4, c_block_statement body (fun_st3 ps (fst (fun_st1 name st))) = Ok st4.
+  Proof.
+    intros name ps body st st' H. rewrite ce_function3 in H. destruct (fun_st1 name st) as [st1 sym]. cbn [fst].
+    unfold fun_tail in H. cbv zeta in H.
+    change (set_loops (set_symbols (emit_u16 JUMP_PLACEHOLDER (emit_opcode OJump st1))
+              (fold_left (fun t p => fst (define t p)) ps
+                 (new_context (c_symbols (emit_u16 JUMP_PLACEHOLDER (emit_opcode OJump st1)))))) [])
+      with (fun_st3 ps st1) in H.
+    apply bind_ok in H. destruct H as [st4 [H4 _]]. exists st4. exact H4.
+  Qed.
+
+  Lemma step_function : forall f lp fa fn name ps body c st st' E F sst y,
+    f3e lp fa fn (EFunction name ps body) = true -> compile_expression (EFunction name ps body) st = Ok st' ->
+    ctx_ok st c E -> flags_ok fa fn E -> Rel3 Sall E F sst y -> holes_e E (EFunction name ps body) ->
+    (forall fe, occ_e (EFunction name ps body) st fe -> Sall fe) ->
+    corr Sall E E F sst (eval_expr orc (S f) c (EFunction name ps body) sst) (yeval orc (S f) st (EFunction name ps body) y).
+  Proof.
+    intros f lp fa fn name ps body c st st' E F sst y HF Hc Hctx Hfl HR Hh Hocc.
+    rewrite f3e_function in HF. apply andb_prop in HF. destruct HF as [HF HFb]. apply andb_prop in HF.
+    destruct HF as [Hfa Hnil]. destruct name as [|c0 nm]; [|discriminate Hnil].
+    destruct (function_parts [] ps body st st' Hc) as [st4 H4]. cbn [fun_st1 is_nil fst] in H4.
+    rewrite ee_function, ye_function. unfold yfunction. cbn [fun_st1 is_nil]. rewrite H4. cbv zeta.
+    set (fe := mkFE (code_len (fun_st3 ps st)) (Z.of_nat (snd (leave_context (c_symbols st4)))) ps body (fun_st3 ps st)).
+    set (clo := mkClo ps body (match d_global c with Some g => g | None => d_local c end)).
+    assert (Sall fe) as HS by (apply Hocc; exact (oc_here [] ps body st st4 H4)).
+    assert (clo_rel (ce_ds E) (ce_L E) (ce_gh E) clo fe) as HC.
+    { apply (fun_clo E F sst y fa fn c st ps body st4 Hctx Hfl Hfa HR H4 HFb).
+      apply (holes_gen_sub E _ _) with (2 := Hh). intros y0 Hm. rewrite mentions_function in Hm. exact Hm. }
+    cbn [corr]. exists [fe]. split.
+    - cbn [vrel]. split; [apply zlength_nonneg|]. exists fe. split; [|reflexivity].
+      unfold zlength. rewrite Nat2Z.id, <- (r_flen _ _ _ _ _ HR), nth_error_app2, Nat.sub_diag by lia. reflexivity.
+    - split; [exact (Rel3_newfun Sall E F sst y clo fe HR HS HC)|]. split; [reflexivity|]. split; [cbn; lia|auto].
+  Qed.
+End SemSim.
